@@ -1,90 +1,201 @@
 /*
  * C15 - console line editing, tokenising and dispatch.
  *
- * Part A (explicit-state BFS): every character stream over a reduced alphabet
- * delivered with console_process, from the empty line and from lines pre-filled
- * to 70..79 characters; state = the real console_t + a reference line editor.
- * Part B (bounded-exhaustive streams): the same streams delivered through
- * console_putchar + scheduler passes and through console_eval running in a fibre;
- * the captured command invocations must equal the reference for every delivery.
- * Part C: registration orders, capacity and beyond.
- * console.c, fibre.c, list.c, messageq.c, ringbuf.c, util.c are #included so the
- * static command table and the scheduler state can be reset between scenarios.
+ * This file is compiled twice.
+ *
+ * (1) With -DC15_SHIM, as one of the part's `lib=` objects: console.c itself plus two accessors for its static command
+ *     table. Nothing else of the harness shares that translation unit (the accessors carry the c15_ prefix), and the
+ *     driver renames its writable sections, so EVERY static of console.c - the command table, the function-scope statics
+ *     of the help command, anything a change adds - is part of the image that vx_lib_save / vx_lib_restore / vx_bfs_run
+ *     snapshot, hash and reset. list.c, messageq.c, ringbuf.c, fibre.c and util.c are plain `lib=` objects. All of them
+ *     are built with -finstrument-functions: the entry hook below tells when one of the library's own (built-in)
+ *     commands runs, without looking at what it prints.
+ * (2) Without it: the harness. It includes public headers only.
+ *
+ * Part A (explicit-state BFS): every character stream over two reduced alphabets, delivered one character at a time with
+ *   console_process, from the empty line and from lines pre-filled to just below the capacity of the line buffer;
+ *   state = the real console_t + a reference line editor (+ the library image).
+ * Part B (bounded-exhaustive stream families): whole streams delivered through console_process, console_putchar +
+ *   scheduler passes (per character and in bursts) and console_eval running in a fibre.
+ * Part E: several console_eval calls, one after the other, on the same console (including the empty string).
+ * Part C: registration orders, capacity and beyond, judged by which command a typed name runs.
+ *
+ * Every size is derived from the library's own types: the line buffer is sizeof(console_t.scratch.buf), a line holds one
+ * character less, the table has c15_shim_table_slots() slots.
  */
+#ifdef C15_SHIM
+
+#include "console.c"
+
+const console_cmd_t **c15_shim_table(void) { return cmd_table; }
+size_t c15_shim_table_slots(void) { return lengthof(cmd_table); }
+
+#else /* ------------------------------------------------------------------------------------------------ the harness */
+
 #include "vx.h"
 
-#include "list.c"
-#include "messageq.c"
-#include "ringbuf.c"
-#include "fibre.c"
-#include "util.c"
-#include "console.c"
+#include <stdio_ext.h>
+
+#include <librfn/console.h>
+#include <librfn/fibre.h>
+#include <librfn/ringbuf.h>
+#include <librfn/util.h>
+
+extern const console_cmd_t **c15_shim_table(void);
+extern size_t c15_shim_table_slots(void);
 
 uint32_t time_now(void) { return 0; }
 void console_hwinit(console_t *c) { (void)c; }
 
-/* ------------------------------------------------------------ capture */
-typedef struct { int8_t cmd; int8_t argc; char argv[4][82]; int8_t bad; } inv_t;
-static inv_t invs[260]; static int ninv;
-static console_t *CON;
+#define C15_LINESZ ((int)sizeof(((console_t *)0)->scratch.buf))	/* the line buffer */
+#define C15_CAP (C15_LINESZ - 1)					/* characters a line can hold in front of its NUL */
+#define C15_SCRATCHSZ ((int)sizeof(((console_t *)0)->scratch))		/* the union the line buffer is a member of */
+#define C15_MAXARG 4							/* "at most four arguments" (the statement) */
+#define C15_ARGV_SLOTS ((int)lengthof(((console_t *)0)->argv))
+#define C15_RINGSZ ((int)sizeof(((console_t *)0)->ringbuf))
 
-static pt_state_t capture(console_t *c, int which)
+/* ------------------------------------------------------------ output sink
+ * A cookie stream with caller-side locking and a buffer of its own: a fault or a watchdog longjmp out of stdio leaves no
+ * lock held and no malloc in flight; after a fault the stream is abandoned and a new one is made. */
+static FILE *c15_sink;
+static uint64_t c15_out_bytes;
+static console_t *c15_con;
+static ssize_t c15_sink_write(void *cookie, const char *buf, size_t n) { (void)cookie; (void)buf; c15_out_bytes += n; return (ssize_t)n; }
+static void c15_new_sink(void)
 {
-	if (ninv < 260) {
-		inv_t *v = &invs[ninv];
+	cookie_io_functions_t io = { .read = NULL, .write = c15_sink_write, .seek = NULL, .close = NULL };
+	char *b = malloc(4096);
+	c15_sink = fopencookie(NULL, "w", io);
+	if (!c15_sink || !b) { fprintf(stderr, "c15: no sink\n"); _exit(3); }
+	__fsetlocking(c15_sink, FSETLOCKING_BYCALLER);
+	setvbuf(c15_sink, b, _IOFBF, 4096);
+	if (c15_con) c15_con->out = c15_sink;
+}
+
+/* ------------------------------------------------------------ which built-in command ran
+ * entry hook of -finstrument-functions (library objects only; the harness itself is not instrumented) */
+#define C15_MAXBUILTIN 32
+static void *c15_builtin_fn[C15_MAXBUILTIN]; static const char *c15_builtin_name[C15_MAXBUILTIN]; static int c15_nbuiltin;
+static volatile uint64_t c15_builtin_hits;	/* bit j: built-in j was entered */
+static uint64_t c15_builtin_entries;
+void __cyg_profile_func_enter(void *fn, void *site)
+{
+	(void)site;
+	for (int j = 0; j < c15_nbuiltin; j++) if (fn == c15_builtin_fn[j]) { c15_builtin_hits |= 1ull << j; c15_builtin_entries++; }
+}
+void __cyg_profile_func_exit(void *fn, void *site) { (void)fn; (void)site; }
+/* the library objects are built with -fstack-protector-all: a local buffer of the library that is overrun is reported when the
+ * function returns, before a smashed return address is used (what a jump through one does depends on the address-space layout) */
+void __stack_chk_fail(void)
+{
+	snprintf(vx_fault_msg, sizeof(vx_fault_msg), "stack smashing detected (a local buffer of the library was overrun)");
+	if (vx_armed) { vx_fault_kind = SIGABRT; siglongjmp(vx_jb, 1); }
+	static const char m[] = "c15: stack smashing detected outside VX_TRY\n";
+	if (write(2, m, sizeof(m) - 1)) {}
+	_exit(5);
+}
+
+/* ------------------------------------------------------------ poison behind the line buffer
+ * The bytes of the scratch union that lie behind scratch.buf (none where buf is the largest member). */
+static int c15_poison_armed;
+static inline uint8_t c15_poison_byte(int i) { return (uint8_t)(0x80 | ((i * 37 + 11) & 0x7f)); }
+static void c15_poison_tail(console_t *c)
+{
+	volatile uint8_t *raw = (volatile uint8_t *)&c->scratch;
+	for (int i = C15_LINESZ; i < C15_SCRATCHSZ; i++) raw[i] = c15_poison_byte(i);
+}
+/* 0: poison intact, 1: wiped to zero, 2: anything else */
+static int c15_tail_state(console_t *c)
+{
+	const volatile uint8_t *raw = (const volatile uint8_t *)&c->scratch;
+	int p = 1, z = 1;
+	for (int i = C15_LINESZ; i < C15_SCRATCHSZ; i++) { if (raw[i] != c15_poison_byte(i)) p = 0; if (raw[i]) z = 0; }
+	return p ? 0 : z ? 1 : 2;
+}
+
+/* ------------------------------------------------------------ capture */
+typedef struct { int16_t cmd; int16_t argc; int8_t bad; const console_cmd_t *desc; char argv[C15_MAXARG][C15_LINESZ + 1]; } c15_inv_t;
+#define C15_MAXINV 600
+static c15_inv_t c15_invs[C15_MAXINV]; static int c15_ninv;
+
+static pt_state_t c15_capture(console_t *c, int which)
+{
+	if (c15_ninv < C15_MAXINV) {
+		c15_inv_t *v = &c15_invs[c15_ninv];
 		memset(v, 0, sizeof(*v));
-		v->cmd = (int8_t)which; v->argc = (int8_t)c->argc;
-		if (c->argc < 1 || c->argc > 4) v->bad = 1;
-		for (int i = 0; i < 4; i++) {
-			/* every argv (also the unused ones) must be a NUL-terminated string inside the line buffer */
-			char *p = c->argv[i];
-			if (p < c->scratch.buf || p > c->scratch.buf + 79) { v->bad = 2; continue; }
-			size_t room = (size_t)(c->scratch.buf + 80 - p);
-			if (strnlen(p, room) == room) { v->bad = 3; continue; }
-			if (i < c->argc && i < 4) snprintf(v->argv[i], sizeof(v->argv[i]), "%s", p);
+		v->cmd = (int16_t)which; v->argc = (int16_t)(c->argc < -1 ? -1 : c->argc > 1000 ? 1000 : c->argc);
+		v->desc = c->cmd;
+		if (c->argc < 1 || c->argc > C15_MAXARG) v->bad = 1;
+		int n = c->argc; if (n > C15_MAXARG) n = C15_MAXARG; if (n > C15_ARGV_SLOTS) n = C15_ARGV_SLOTS;
+		/* only the arguments actually passed are judged: NUL-terminated strings inside the line buffer */
+		for (int i = 0; i < n; i++) {
+			uintptr_t p = (uintptr_t)c->argv[i], lo = (uintptr_t)c->scratch.buf;
+			if (p < lo || p > lo + (uintptr_t)C15_CAP) { v->bad = 2; continue; }
+			size_t room = (size_t)(lo + (uintptr_t)C15_LINESZ - p);
+			size_t l = strnlen(c->argv[i], room);
+			if (l == room) { v->bad = 3; continue; }
+			memcpy(v->argv[i], c->argv[i], l); v->argv[i][l] = 0;
 		}
+		/* nothing behind the line buffer was written while the line was typed, edited and tokenised */
+		if (c15_poison_armed && C15_SCRATCHSZ > C15_LINESZ && c15_tail_state(c) != 0 && !v->bad) v->bad = 4;
 	}
-	ninv++;
+	c15_ninv++;
 	return PT_EXITED;
 }
-static pt_state_t cmd_a_fn(console_t *c) { return capture(c, 0); }
-static pt_state_t cmd_b_fn(console_t *c) { return capture(c, 2); }
-static pt_state_t cmd_ab_fn(console_t *c)
+static const char *c15_bad_text(int bad)
+{
+	return bad == 1 ? "argc outside 1..4" : bad == 2 ? "an argv pointer outside the line buffer" :
+	       bad == 3 ? "an argv string that is not NUL-terminated inside the line buffer" : "bytes behind the line buffer overwritten before the command ran";
+}
+static const char *c15_bad_clause(int bad) { return bad == 4 ? "write-outside-line-buffer" : "argv-unsafe"; }
+
+static pt_state_t c15_cmd_a_fn(console_t *c) { return c15_capture(c, 0); }
+static pt_state_t c15_cmd_b_fn(console_t *c) { return c15_capture(c, 2); }
+static pt_state_t c15_cmd_ab_fn(console_t *c)
 {
 	/* yields twice before it looks at its arguments and exits */
 	PT_BEGIN(&c->pt);
 	PT_YIELD();
 	PT_YIELD();
-	capture(c, 1);
+	c15_capture(c, 1);
 	/* like the library's own udelay/pulse commands it then keeps state in the scratch area (the documented
 	 * use: "commands must parse their command line before storing state in the scratch buffers") */
 	c->scratch.u32[0] = 0x41424344; c->scratch.u32[1] = 0x45464748; c->scratch.u32[5] = 0x61626364;
 	PT_YIELD();
 	PT_END();
 }
-static const console_cmd_t cmd_a = CONSOLE_CMD_VAR_INIT("a", cmd_a_fn);
-static const console_cmd_t cmd_ab = CONSOLE_CMD_VAR_INIT("ab", cmd_ab_fn);
-static const console_cmd_t cmd_b = CONSOLE_CMD_VAR_INIT("b", cmd_b_fn);
-/* two names longer than a pointer (8 bytes here, 4 on the 32-bit targets) that share their first 8 and 9 characters:
- * lookups must compare whole names */
-static pt_state_t cmd_l1_fn(console_t *c) { return capture(c, 3); }
-static pt_state_t cmd_l2_fn(console_t *c) { return capture(c, 4); }
-static const console_cmd_t cmd_l1 = CONSOLE_CMD_VAR_INIT("abababab", cmd_l1_fn);
-static const console_cmd_t cmd_l2 = CONSOLE_CMD_VAR_INIT("ababababa", cmd_l2_fn);
-static const char *cmdname[] = { "a", "ab", "b", "abababab", "ababababa" };
-#define NCMD 5
+/* two names longer than a pointer that share their first 8 and 9 characters: lookups must compare whole names */
+static pt_state_t c15_cmd_l1_fn(console_t *c) { return c15_capture(c, 3); }
+static pt_state_t c15_cmd_l2_fn(console_t *c) { return c15_capture(c, 4); }
+/* a name with an upper-case letter whose lower-case spelling is another command, and names made of the first and the last
+ * printable character (they sort in front of and behind everything else in the table) */
+static pt_state_t c15_cmd_uc_fn(console_t *c) { return c15_capture(c, 5); }
+static pt_state_t c15_cmd_lo_fn(console_t *c) { return c15_capture(c, 6); }
+static pt_state_t c15_cmd_hi_fn(console_t *c) { return c15_capture(c, 7); }
+#define C15_NCMD 8
+static const char *c15_cmdname[C15_NCMD] = { "a", "ab", "b", "abababab", "ababababa", "Ab", "!~", "~!" };
+static const console_cmd_t c15_cmds[C15_NCMD] = {
+	CONSOLE_CMD_VAR_INIT("a", c15_cmd_a_fn), CONSOLE_CMD_VAR_INIT("ab", c15_cmd_ab_fn), CONSOLE_CMD_VAR_INIT("b", c15_cmd_b_fn),
+	CONSOLE_CMD_VAR_INIT("abababab", c15_cmd_l1_fn), CONSOLE_CMD_VAR_INIT("ababababa", c15_cmd_l2_fn),
+	CONSOLE_CMD_VAR_INIT("Ab", c15_cmd_uc_fn), CONSOLE_CMD_VAR_INIT("!~", c15_cmd_lo_fn), CONSOLE_CMD_VAR_INIT("~!", c15_cmd_hi_fn),
+};
+/* registration order of the working table (not the sorted order) */
+static const int c15_reg_order[C15_NCMD] = { 0, 7, 1, 5, 2, 4, 6, 3 };
+static uint8_t c15_cmd_registered[C15_NCMD];	/* a table too small for all eight holds the first ones of the order above */
 
-static const console_cmd_t *pristine_table[32];
-static void table_reset(void) { memcpy(cmd_table, pristine_table, sizeof(cmd_table)); }
+/* ------------------------------------------------------------ library images (command table + every other static) */
+static void *c15_img_work;	/* built-ins + the eight commands above */
+static void c15_fresh_from(const void *image);
+#define C15_BUILTIN_BASE 100	/* expect.cmd of built-in j */
 
 /* ------------------------------------------------------------ the reference */
-typedef struct { char line[80]; int len; } model_t;
-typedef struct { int cmd; int argc; char argv[4][80]; int unspecified; } expect_t;
+typedef struct { char line[C15_LINESZ + 1]; int16_t len; uint8_t owed, limbo; } c15_model_t;
+typedef struct { int cmd; int argc; char argv[C15_MAXARG][C15_LINESZ + 1]; int unspecified; } c15_expect_t;
 
 /* what the statement defines: split on unquoted white space; a token that starts with ' or " runs to the
  * matching quote. Everything else (leading blanks, quote inside a word, unterminated or empty quote, text glued
  * to a closing quote, more than four tokens) is left open by the statement: flagged unspecified. */
-static void reference_tokenize(const char *line, expect_t *e)
+static void c15_reference_tokenize(const char *line, c15_expect_t *e)
 {
 	memset(e, 0, sizeof(*e)); e->cmd = -1;
 	int n = (int)strlen(line), i = 0, ntok = 0;
@@ -92,9 +203,9 @@ static void reference_tokenize(const char *line, expect_t *e)
 	if (n && (line[0] == '\'' || line[0] == '"')) e->unspecified = 1;	/* a quoted command name */
 	while (i < n) {
 		if (line[i] == ' ' || line[i] == '\t') { i++; continue; }
-		char tok[80]; int t = 0;
+		char tok[C15_LINESZ + 1]; int t = 0;
 		if (line[i] == '\'' || line[i] == '"') {
-			if (ntok == 3) e->unspecified = 1;	/* a quoted fourth token: see below */
+			if (ntok == C15_MAXARG - 1) e->unspecified = 1;	/* a quoted fourth token: see below */
 			char q = line[i++]; int closed = 0;
 			while (i < n) { if (line[i] == q) { closed = 1; i++; break; } tok[t++] = line[i++]; }
 			if (!closed || t == 0) e->unspecified = 1;
@@ -103,257 +214,723 @@ static void reference_tokenize(const char *line, expect_t *e)
 			while (i < n && line[i] != ' ' && line[i] != '\t') { if (line[i] == '\'' || line[i] == '"') e->unspecified = 1; tok[t++] = line[i++]; }
 		}
 		tok[t] = 0;
-		if (ntok < 4) snprintf(e->argv[ntok], 80, "%s", tok);
+		if (ntok < C15_MAXARG) memcpy(e->argv[ntok], tok, (size_t)t + 1);
 		ntok++;
 		/* the fourth token is the last one the console can hand over; whether it also takes the rest of the
 		 * line (further tokens, or just trailing blanks) is not said */
-		if (ntok == 4 && i < n) e->unspecified = 1;
+		if (ntok == C15_MAXARG && i < n) e->unspecified = 1;
 	}
-	if (ntok > 4) e->unspecified = 1;
-	e->argc = ntok > 4 ? 4 : ntok;
-	if (ntok) for (int k = 0; k < NCMD; k++) if (!strcmp(e->argv[0], cmdname[k])) e->cmd = k;
+	if (ntok > C15_MAXARG) e->unspecified = 1;
+	e->argc = ntok > C15_MAXARG ? C15_MAXARG : ntok;
+	if (ntok) {
+		for (int k = 0; k < C15_NCMD; k++) if (c15_cmd_registered[k] && !strcmp(e->argv[0], c15_cmdname[k])) e->cmd = k;
+		for (int j = 0; j < c15_nbuiltin; j++) if (!strcmp(e->argv[0], c15_builtin_name[j])) e->cmd = C15_BUILTIN_BASE + j;
+	}
+}
+static int c15_is_known_name(const char *s)
+{
+	for (int k = 0; k < C15_NCMD; k++) if (c15_cmd_registered[k] && !strcmp(s, c15_cmdname[k])) return 1;
+	for (int j = 0; j < c15_nbuiltin; j++) if (!strcmp(s, c15_builtin_name[j])) return 1;
+	return 0;
+}
+
+/* the reference line editor. Returns 0: no line completes; 1: `completed` is a line that this character completes;
+ * 2: this character has filled the buffer - the line in the model completes now or with the next character (the
+ * statement says "the buffer filling", not when), the caller decides from what it observes and sets `owed`;
+ * 3: a line completes whose content the statement does not determine */
+static int c15_model_char(c15_model_t *m, char ch, char *completed)
+{
+	if (m->owed) {
+		/* a full line that was not dispatched when its last character was stored: whatever comes next completes it. What
+		 * becomes of that character itself is open (dropped, or the first character of the next line): after Ctrl-C, newline
+		 * or backspace the next line is empty either way, after anything else it is undetermined until a Ctrl-C */
+		memcpy(completed, m->line, (size_t)m->len); completed[m->len] = 0;
+		memset(m, 0, sizeof(*m));
+		if (ch != 3 && ch != '\n' && ch != '\b') m->limbo = 1;
+		return 1;
+	}
+	if (ch == 3) { memset(m, 0, sizeof(*m)); return 0; }
+	if (m->limbo) { if (ch == '\n') { completed[0] = 0; return 3; } return 0; }
+	if (ch == '\n') {
+		memcpy(completed, m->line, (size_t)m->len); completed[m->len] = 0;
+		memset(m, 0, sizeof(*m));
+		return 1;
+	}
+	if (ch == '\b') { if (m->len) m->line[--m->len] = 0; return 0; }
+	m->line[m->len++] = ch;
+	if (m->len >= C15_CAP) return 2;
+	return 0;
+}
+/* the caller saw the full line dispatched at once: take it out of the model (what follows is determined again after ^C;
+ * an implementation that dispatches at once treats the next character as the first of a new line, one that dispatches
+ * with the next character drops it) */
+static void c15_model_take_full(c15_model_t *m, char *completed)
+{
+	memcpy(completed, m->line, (size_t)m->len); completed[m->len] = 0;
+	memset(m, 0, sizeof(*m));
+	m->limbo = 1;
 }
 
 /* ------------------------------------------------------------ comparing one completed line */
-static uint64_t n_lines, n_lines_unspecified, n_lines_cmd[NCMD + 1], n_lines_unknown;
-static vx_set distinct_obs;
-static char failbuf[400];
-/* returns NULL if fine, else a description; `got`/`ngot` are the invocations captured while the line completed */
-static const char *check_line(const char *line, const inv_t *got, int ngot, const char **clause)
+static uint64_t c15_n_lines, c15_n_lines_unspecified, c15_n_lines_cmd[C15_NCMD], c15_n_lines_unknown, c15_n_lines_builtin;
+static uint64_t c15_n_lines_by_len[4];	/* <18, 18..69, 70..CAP-1, CAP */
+static uint64_t c15_n_lines_ge4tok_quoted;
+static vx_set c15_distinct_obs;
+static char c15_failbuf[2048];
+static char c15_linebuf[C15_LINESZ * 4 + 8];
+/* printable rendering of a line for messages */
+static const char *c15_show(const char *line)
 {
-	expect_t e; reference_tokenize(line, &e);
-	n_lines++;
-	vx_hasher h; vx_h_init(&h); vx_h_bytes(&h, line, strlen(line)); vx_h_u64(&h, (uint64_t)ngot);
-	if (ngot) { vx_h_u64(&h, (uint64_t)got[0].cmd); vx_h_u64(&h, (uint64_t)got[0].argc); }
-	vx_set_add(&distinct_obs, vx_h_done(&h));
-	for (int i = 0; i < ngot && i < 260; i++) if (got[i].bad) {
-		*clause = "argv-unsafe";
-		snprintf(failbuf, sizeof(failbuf), "line \"%s\": command received %s", line, got[i].bad == 1 ? "argc outside 1..4" : got[i].bad == 2 ? "an argv pointer outside the line buffer" : "an argv string that is not NUL-terminated inside the line buffer");
-		return failbuf;
+	int k = 0;
+	for (int i = 0; line[i] && k < (int)sizeof(c15_linebuf) - 6; i++) {
+		unsigned char ch = (unsigned char)line[i];
+		if (ch == '\t') { c15_linebuf[k++] = '\\'; c15_linebuf[k++] = 't'; }
+		else if (ch < 0x20 || ch >= 0x7f) k += snprintf(c15_linebuf + k, 6, "\\x%02x", ch);
+		else c15_linebuf[k++] = (char)ch;
 	}
-	if (ngot > 1) { *clause = "dispatch-count"; snprintf(failbuf, sizeof(failbuf), "line \"%s\" ran %d registered commands", line, ngot); return failbuf; }
-	if (e.unspecified) { n_lines_unspecified++; return NULL; }
+	c15_linebuf[k] = 0;
+	return c15_linebuf;
+}
+static const char *c15_expect_name(int cmd) { return cmd >= C15_BUILTIN_BASE ? c15_builtin_name[cmd - C15_BUILTIN_BASE] : c15_cmdname[cmd]; }
+static int c15_first_bit(uint64_t m) { int j = 0; while (j < 63 && !(m & (1ull << j))) j++; return j; }
+
+/* returns NULL if fine, else a description. `got`/`ngot`: the harness commands captured while the line completed; `hits`:
+ * the built-ins entered meanwhile; per_line = 0 when built-ins cannot be attributed to single lines (whole streams) */
+static const char *c15_check_line(const char *line, const c15_inv_t *got, int ngot, uint64_t hits, int per_line, const char **clause)
+{
+	c15_expect_t e; c15_reference_tokenize(line, &e);
+	int len = (int)strlen(line);
+	c15_n_lines++;
+	c15_n_lines_by_len[len < 18 ? 0 : len < 70 ? 1 : len < C15_CAP ? 2 : 3]++;
+	vx_hasher h; vx_h_init(&h); vx_h_bytes(&h, line, strlen(line)); vx_h_u64(&h, (uint64_t)ngot); vx_h_u64(&h, hits);
+	if (ngot) { vx_h_u64(&h, (uint64_t)got[0].cmd); vx_h_u64(&h, (uint64_t)got[0].argc); }
+	vx_set_add(&c15_distinct_obs, vx_h_done(&h));
+	for (int i = 0; i < ngot && i < C15_MAXINV; i++) if (got[i].bad) {
+		*clause = c15_bad_clause(got[i].bad);
+		snprintf(c15_failbuf, sizeof(c15_failbuf), "line \"%s\": command received %s (argc=%d)", c15_show(line), c15_bad_text(got[i].bad), got[i].argc);
+		return c15_failbuf;
+	}
+	int ran = ngot + (per_line ? __builtin_popcountll(hits) : 0);
+	if (ran > 1) { *clause = "dispatch-count"; snprintf(c15_failbuf, sizeof(c15_failbuf), "line \"%s\" ran %d registered commands", c15_show(line), ran); return c15_failbuf; }
+	if (e.unspecified) { c15_n_lines_unspecified++; return NULL; }
 	if (e.cmd < 0) {
-		n_lines_unknown++;
-		if (ngot) { *clause = "dispatch-unknown"; snprintf(failbuf, sizeof(failbuf), "line \"%s\" names no registered command but command '%s' ran", line, cmdname[got[0].cmd]); return failbuf; }
+		c15_n_lines_unknown++;
+		if (ngot) { *clause = "dispatch-unknown"; snprintf(c15_failbuf, sizeof(c15_failbuf), "line \"%s\" names no registered command but command '%s' ran", c15_show(line), c15_cmdname[got[0].cmd]); return c15_failbuf; }
+		if (per_line && hits) { *clause = "dispatch-unknown"; snprintf(c15_failbuf, sizeof(c15_failbuf), "line \"%s\" names no registered command but the built-in command '%s' ran", c15_show(line), c15_builtin_name[c15_first_bit(hits)]); return c15_failbuf; }
 		return NULL;
 	}
-	n_lines_cmd[e.cmd]++;
-	if (!ngot) { *clause = "dispatch-missing"; snprintf(failbuf, sizeof(failbuf), "line \"%s\" names command '%s' but no registered command ran", line, cmdname[e.cmd]); return failbuf; }
-	if (got[0].cmd != e.cmd) { *clause = "dispatch-wrong"; snprintf(failbuf, sizeof(failbuf), "line \"%s\" names command '%s' but '%s' ran", line, cmdname[e.cmd], cmdname[got[0].cmd]); return failbuf; }
-	if (got[0].argc != e.argc) { *clause = "argc"; snprintf(failbuf, sizeof(failbuf), "line \"%s\": command saw argc=%d, the line has %d tokens", line, got[0].argc, e.argc); return failbuf; }
+	if (e.cmd >= C15_BUILTIN_BASE) {
+		c15_n_lines_builtin++;
+		if (ngot) { *clause = "dispatch-wrong"; snprintf(c15_failbuf, sizeof(c15_failbuf), "line \"%s\" names the built-in '%s' but '%s' ran", c15_show(line), c15_expect_name(e.cmd), c15_cmdname[got[0].cmd]); return c15_failbuf; }
+		if (per_line && hits != (1ull << (e.cmd - C15_BUILTIN_BASE))) {
+			*clause = hits ? "dispatch-wrong" : "dispatch-missing";
+			snprintf(c15_failbuf, sizeof(c15_failbuf), "line \"%s\" names the built-in '%s' but %s%s ran", c15_show(line), c15_expect_name(e.cmd), hits ? "built-in " : "no command", hits ? c15_builtin_name[c15_first_bit(hits)] : "");
+			return c15_failbuf;
+		}
+		return NULL;
+	}
+	c15_n_lines_cmd[e.cmd]++;
+	if (e.argc >= C15_MAXARG && (strchr(line, '\'') || strchr(line, '"'))) c15_n_lines_ge4tok_quoted++;
+	if (!ngot) { *clause = "dispatch-missing"; snprintf(c15_failbuf, sizeof(c15_failbuf), "line \"%s\" names command '%s' but %s%s ran", c15_show(line), c15_cmdname[e.cmd], (per_line && hits) ? "the built-in " : "no registered command", (per_line && hits) ? c15_builtin_name[c15_first_bit(hits)] : ""); return c15_failbuf; }
+	if (got[0].cmd != e.cmd) { *clause = "dispatch-wrong"; snprintf(c15_failbuf, sizeof(c15_failbuf), "line \"%s\" names command '%s' but '%s' ran", c15_show(line), c15_cmdname[e.cmd], c15_cmdname[got[0].cmd]); return c15_failbuf; }
+	if (got[0].argc != e.argc) { *clause = "argc"; snprintf(c15_failbuf, sizeof(c15_failbuf), "line \"%s\": command saw argc=%d, the line has %d tokens", c15_show(line), got[0].argc, e.argc); return c15_failbuf; }
 	for (int i = 0; i < e.argc; i++) if (strcmp(got[0].argv[i], e.argv[i])) {
-		*clause = "argv"; snprintf(failbuf, sizeof(failbuf), "line \"%s\": argv[%d] is \"%s\", expected \"%s\"", line, i, got[0].argv[i], e.argv[i]); return failbuf;
+		*clause = "argv";
+		int k = snprintf(c15_failbuf, sizeof(c15_failbuf), "line \"%s\": argv[%d] is ", c15_show(line), i);
+		k += snprintf(c15_failbuf + k, sizeof(c15_failbuf) - (size_t)k, "\"%s\", expected ", c15_show(got[0].argv[i]));
+		snprintf(c15_failbuf + k, sizeof(c15_failbuf) - (size_t)k, "\"%s\"", c15_show(e.argv[i]));
+		return c15_failbuf;
 	}
 	return NULL;
 }
 
-/* ------------------------------------------------------------ part A: BFS with console_process */
-static const char alphabet[] = { 'a', 'b', ' ', '\n', '\b', 3, '\'', '"', '\t' };
-static const char *alphaname[] = { "a", "b", "SP", "NL", "BS", "^C", "'", "\"", "TAB" };
-#define NALPHA 9
-
-static struct { console_t *c; } dummy;
-typedef struct { console_t con; model_t m; uint8_t must_ctrlc; } snapA_t;
-static model_t Mo;
-static uint8_t must_ctrlc;	/* the 80th character completed a line; whether it also starts the next line is open: discard with ^C */
-static FILE *sink; static char sinkbuf[1 << 16];
-
-static void stA_save(void *dst) { snapA_t *s = dst; memcpy(&s->con, CON, sizeof(console_t)); s->m = Mo; s->must_ctrlc = must_ctrlc; }
-static void stA_load(const void *src) { const snapA_t *s = src; memcpy(CON, &s->con, sizeof(console_t)); Mo = s->m; must_ctrlc = s->must_ctrlc; }
-static void stA_canon(vx_hasher *h)
+/* ------------------------------------------------------------ a fresh console on a given library image */
+static uint8_t *c15_canary; static int c15_canary_len = 64;
+static int c15_canaries_ok(void) { for (int i = 0; i < c15_canary_len; i++) if (c15_canary[i] != 0xA5) return 0; return 1; }
+static c15_model_t c15_mo;
+static void c15_fresh_from(const void *image)
 {
-	console_t *c = CON;
+	/* every static of the library (command table, scheduler, help's state, anything new) back to a known image */
+	vx_lib_restore(image);
+	console_init(c15_con, c15_sink);
+	console_silent(c15_con);		/* no prompt before the first line (argc = 1): the fibre starts reading at once */
+	memset(&c15_mo, 0, sizeof(c15_mo)); c15_ninv = 0; c15_builtin_hits = 0; c15_poison_armed = 0;
+}
+static void c15_fresh(void) { c15_fresh_from(c15_img_work); }
+static void c15_after_fault(void) { c15_poison_armed = 0; c15_new_sink(); }
+
+/* ------------------------------------------------------------ part A: one character with console_process, judged at once */
+typedef struct { const char *chars; const char *const *names; int n; } c15_alpha_t;
+static const char c15_alpha1_chars[] = { 'a', 'b', ' ', '\n', '\b', 3, '\'', '"', '\t' };
+static const char *const c15_alpha1_names[] = { "a", "b", "SP", "NL", "BS", "^C", "'", "\"", "TAB" };
+/* upper-case letters and the first and last printable character; names Ab, !~, ~! are registered, AB aB A a~ ... are not */
+static const char c15_alpha2_chars[] = { 'a', 'b', 'A', 'B', '!', '~', ' ', '\n', '\b' };
+static const char *const c15_alpha2_names[] = { "a", "b", "A", "B", "!", "~", "SP", "NL", "BS" };
+static const c15_alpha_t c15_alphas[2] = { { c15_alpha1_chars, c15_alpha1_names, 9 }, { c15_alpha2_chars, c15_alpha2_names, 9 } };
+static const c15_alpha_t *c15_alpha = &c15_alphas[0];
+static uint64_t c15_n_chars[2][9], c15_n_fill_lines, c15_n_fill_lines_at_once, c15_n_poison_checks;
+
+/* returns NULL if fine, else a description (clause set) */
+static const char *c15_step(char ch, const char **clause)
+{
+	char line[C15_LINESZ + 1];
+	console_t *c = c15_con;
+	c15_ninv = 0; c15_builtin_hits = 0;
+	c15_poison_tail(c); c15_poison_armed = 1;
+	if (VX_TRY) { console_process(c, ch); VX_END; }
+	else { VX_END; c15_after_fault(); *clause = "fault"; snprintf(c15_failbuf, sizeof(c15_failbuf), "%s while processing the character", vx_fault_msg); return c15_failbuf; }
+	c15_poison_armed = 0;
+	int was_owed = c15_mo.owed;
+	int r = c15_model_char(&c15_mo, ch, line);
+	int tail = C15_SCRATCHSZ > C15_LINESZ ? c15_tail_state(c) : 0;
+	uint64_t hits = c15_builtin_hits;
+	if (!c15_canaries_ok()) { *clause = "write-outside-console"; return "the console wrote in front of its own structure"; }
+	c15_n_poison_checks++;
+	if (r == 2) {
+		if (!c15_ninv && !hits) {
+			/* not dispatched yet (or a line that runs nothing): it is owed with the next character */
+			if (tail != 0) { *clause = "write-outside-line-buffer"; return "storing a character changed bytes behind the line buffer"; }
+			c15_mo.owed = 1; c15_poison_tail(c);
+			return NULL;
+		}
+		c15_model_take_full(&c15_mo, line); c15_n_fill_lines_at_once++;
+		r = 1; was_owed = 1;
+	}
+	if (r == 0) {
+		/* a new prompt (Ctrl-C) may wipe the whole scratch area, as the header documents; storing and erasing may not */
+		if (ch == 3 ? tail == 2 : tail != 0) { *clause = "write-outside-line-buffer"; return "editing the line changed bytes behind the line buffer"; }
+		if (c15_ninv || hits) { *clause = "dispatch-early"; return "a command ran although no line was completed"; }
+		c15_poison_tail(c);
+		return NULL;
+	}
+	if (tail == 2) { *clause = "write-outside-line-buffer"; return "completing the line left bytes behind the line buffer that are neither untouched nor wiped"; }
+	c15_poison_tail(c);
+	if (r == 3) return NULL;
+	if (was_owed) c15_n_fill_lines++;
+	return c15_check_line(line, c15_invs, c15_ninv < C15_MAXINV ? c15_ninv : C15_MAXINV, hits, 1, clause);
+}
+
+typedef struct { console_t con; c15_model_t m; } c15_snap_t;
+static void c15_stA_save(void *dst) { c15_snap_t *s = dst; memcpy(&s->con, c15_con, sizeof(console_t)); s->m = c15_mo; }
+static void c15_stA_load(const void *src) { const c15_snap_t *s = src; memcpy(c15_con, &s->con, sizeof(console_t)); c15_mo = s->m; c15_con->out = c15_sink; }
+static void c15_stA_canon(vx_hasher *h)
+{
+	console_t *c = c15_con;
 	vx_h_bytes(h, &c->scratch, sizeof(c->scratch)); vx_h_u64(h, (uint64_t)(c->bufp - c->scratch.buf)); vx_h_u64(h, (uint64_t)c->argc);
 	vx_h_u64(h, c->pt); vx_h_u64(h, c->fibre.priv);
 	vx_h_u64(h, atomic_load(&c->ring.readi)); vx_h_u64(h, atomic_load(&c->ring.writei));
-	vx_h_bytes(h, Mo.line, sizeof(Mo.line)); vx_h_u64(h, (uint64_t)Mo.len); vx_h_u64(h, must_ctrlc);
+	vx_h_bytes(h, c15_mo.line, sizeof(c15_mo.line)); vx_h_u64(h, (uint64_t)c15_mo.len);
+	vx_h_u64(h, (uint64_t)c15_mo.owed | (uint64_t)c15_mo.limbo << 16);
 }
-static int opA_enabled(int op) { if (must_ctrlc) return alphabet[op] == 3; return 1; }
-static void opA_describe(int op, vx_sb *sb) { vx_sb_printf(sb, "%s", alphaname[op]); }
-static uint64_t n_chars[NALPHA], n_fill_lines;
-
-/* feed one character to the reference editor; returns 1 and copies the completed line if it completes one */
-static int model_char(char ch, char *completed)
+/* after the buffer filled, what becomes of the next character is open: only the characters after which the next line is
+ * determined again (scope guard, counted) */
+static int c15_opA_enabled(int op)
 {
-	if (ch == '\n' || Mo.len >= 79) {
-		memcpy(completed, Mo.line, (size_t)Mo.len); completed[Mo.len] = 0;
-		if (ch != '\n') { must_ctrlc = 1; n_fill_lines++; }
-		memset(&Mo, 0, sizeof(Mo));
-		return 1;
-	}
-	if (ch == '\b') { if (Mo.len) Mo.line[--Mo.len] = 0; return 0; }
-	if (ch == 3) { memset(&Mo, 0, sizeof(Mo)); must_ctrlc = 0; return 0; }
-	Mo.line[Mo.len++] = ch;
-	return 0;
-}
-static int scratch_tail_clean(console_t *c)
-{
-	/* the line buffer is scratch.buf[80]; the rest of the scratch area (x86-64: 160 bytes) must stay clear,
-	 * except its last two bytes where console_eval keeps its cursor */
-	const volatile uint8_t *raw = (const volatile uint8_t *)&c->scratch;
-	for (size_t i = 80; i + 2 < sizeof(c->scratch); i++) if (raw[i]) return 0;
+	char ch = c15_alpha->chars[op];
+	if (c15_mo.limbo) return ch == 3;
+	if (c15_mo.owed) return ch == 3 || ch == '\n' || ch == '\b';
 	return 1;
 }
-static uint8_t *con_canary_lo, *con_canary_hi;
-static int canaries_ok(void)
+static void c15_opA_describe(int op, vx_sb *sb) { vx_sb_printf(sb, "%s", c15_alpha->names[op]); }
+static int c15_opA_apply(int op)
 {
-	for (int i = 0; i < 64; i++) if (con_canary_lo[i] != 0xA5) return 0;
-	(void)con_canary_hi;
-	return 1;
-}
-static int opA_apply(int op)
-{
-	char ch = alphabet[op], line[80];
-	n_chars[op]++;
-	ninv = 0;
-	rewind(sink);
-	if (VX_TRY) { console_process(CON, ch); VX_END; }
-	else { VX_END; vx_bfs_fail("fault", "%s while processing the character", vx_fault_msg); return 1; }
-	int completes = model_char(ch, line);
-	if (!scratch_tail_clean(CON) || !canaries_ok()) { vx_bfs_fail("write-outside-line-buffer", "the console wrote outside its 80-byte line buffer"); return 1; }
-	if (!completes) {
-		if (ninv) { vx_bfs_fail("dispatch-early", "a command ran although no line was completed"); return 1; }
-		return 0;
-	}
-	const char *clause = "", *why = check_line(line, invs, ninv, &clause);
+	const char *clause = "";
+	c15_n_chars[c15_alpha == &c15_alphas[1]][op]++;
+	const char *why = c15_step(c15_alpha->chars[op], &clause);
 	if (why) { vx_bfs_fail(clause, "%s", why); return 1; }
 	return 0;
 }
-
-static void console_fresh(void)
-{
-	memset(&kernel, 0, sizeof(kernel));
-	memset(atomic_runq_buf, 0, sizeof(atomic_runq_buf));
-	messageq_init(&kernel.atomic_runq, atomic_runq_buf, sizeof(atomic_runq_buf), sizeof(atomic_runq_buf[0]));
-	console_init(CON, sink);
-	console_silent(CON);		/* no prompt before the first line (argc = 1): the fibre starts reading at once */
-	memset(&Mo, 0, sizeof(Mo)); must_ctrlc = 0; ninv = 0;
-}
-/* start state: a line of n characters already typed (pattern of words) */
-static void prefill(int n)
+/* start state: a line of n characters already typed: "ab", a blank, two long words. Returns 0 if the typing itself failed */
+static int c15_prefill(int n, const char *cfg)
 {
 	for (int i = 0; i < n; i++) {
-		/* "ab" and two long words: a line that names a registered command with two arguments */
-		char ch = (i == 2 || i == 40) ? ' ' : (i < 2 ? "ab"[i] : 'a' + (char)((i >> 2) & 1));
-		char line[80];
-		console_process(CON, ch);
-		model_char(ch, line);
+		char ch = (i == 2 || i == C15_CAP / 2 + 1) ? ' ' : (i < 2 ? "ab"[i] : (char)('a' + ((i >> 2) & 1)));
+		const char *clause = "", *why = c15_step(ch, &clause);
+		if (why) {
+			vx_sb sig = {0}, rep = {0};
+			vx_sb_printf(&sig, "%s|%s|while typing the start line", clause, cfg);
+			vx_sb_printf(&rep, "config=%s\nops=\n", cfg);
+			vx_violation(sig.s, rep.s, "%s: %s -- while typing character %d of the %d-character start line", clause, why, i + 1, n);
+			free(sig.s); free(rep.s);
+			return 0;
+		}
 	}
+	return 1;
 }
 
-/* ------------------------------------------------------------ part B: other deliveries of whole streams */
-static uint64_t n_streams, n_deliveries[3], n_eval_invocations;
-static fibre_t evalf; static pt_t evalpt; static const char *evalstr; static int eval_done;
-static int eval_body(fibre_t *f)
+/* ------------------------------------------------------------ part B: whole streams through every delivery path */
+#define C15_MAXSTREAM 1400
+#define C15_MAXLINES 600
+static uint64_t c15_n_streams, c15_n_deliveries[4], c15_n_eval_invocations, c15_n_guard_skips;
+static fibre_t c15_evalf; static pt_t c15_evalpt; static const char *c15_evalstr; static int c15_eval_done;
+static int c15_eval_body(fibre_t *f)
 {
 	(void)f;
-	pt_state_t s = console_eval(&evalpt, CON, evalstr);
-	n_eval_invocations++;
-	if (s >= PT_EXITED) eval_done = 1;
+	pt_state_t s = console_eval(&c15_evalpt, c15_con, c15_evalstr);
+	c15_n_eval_invocations++;
+	if (s >= PT_EXITED) c15_eval_done = 1;
 	return s;
 }
-/* run the reference over a whole stream: expected completed lines, in order */
-static int reference_lines(const char *s, int n, char lines[][80])
+/* strings handed to console_eval live here: behind the terminating NUL comes a trap line, then zeros - an injection that
+ * reads past its string either runs the trap or finds nothing, it never depends on what the linker put there */
+static char c15_evalarea[3][C15_MAXSTREAM + 64];
+static const char c15_trap[] = "\nb trap\n";
+static const char *c15_eval_string(int slot, const char *s, int n)
 {
-	int k = 0; memset(&Mo, 0, sizeof(Mo)); must_ctrlc = 0;
-	for (int i = 0; i < n; i++) if (model_char(s[i], lines[k])) k++;
+	memset(c15_evalarea[slot], 0, sizeof(c15_evalarea[slot]));
+	memcpy(c15_evalarea[slot], s, (size_t)n);
+	memcpy(c15_evalarea[slot] + n + 1, c15_trap, sizeof(c15_trap));
+	return c15_evalarea[slot];
+}
+/* run console_eval(s) in a fibre until it has exited and the console has gone idle; 0 if it never exits. Inside VX_TRY. */
+static int c15_run_eval(const char *s, int n, uint32_t *t)
+{
+	fibre_init(&c15_evalf, c15_eval_body); PT_INIT(&c15_evalpt); c15_evalstr = s; c15_eval_done = 0;
+	fibre_run(&c15_evalf);
+	int maxpass = 400 + 8 * n, idle = 0;
+	for (int k = 0; k < maxpass && idle < 3; k++) {
+		uint32_t now = (*t)++, next = fibre_scheduler_next(now);
+		if (c15_ninv >= C15_MAXINV) break;
+		idle = (c15_eval_done && ringbuf_empty(&c15_con->ring) && next != now) ? idle + 1 : 0;
+	}
+	for (int j = 0; j < 8; j++) fibre_scheduler_next((*t)++);
+	return c15_eval_done;
+}
+/* run the reference over a whole stream: expected completed lines, in order; kind[k] = 1 determined, 3 undetermined */
+static int c15_reference_lines(const char *s, int n, char lines[][C15_LINESZ + 1], uint8_t *kind)
+{
+	int k = 0; c15_model_t m; memset(&m, 0, sizeof(m));
+	for (int i = 0; i < n && k < C15_MAXLINES; i++) {
+		int r = c15_model_char(&m, s[i], lines[k]);
+		if (r == 2) { m.owed = 1; c15_n_fill_lines++; }	/* whole streams: when exactly the full line runs is not observed */
+		else if (r) kind[k++] = (uint8_t)r;
+	}
 	return k;
 }
-/* mode 0: console_process per character; 1: console_putchar + a scheduler pass after every character;
+/* mode 0: console_process per character; 1: console_putchar + scheduler passes after every character;
  * 2: console_putchar in bursts (ring permitting) + passes; 3: console_eval in a fibre */
-static const char *deliver(const char *s, int n, int mode, const char **clause)
+static const char *c15_compare_stream(const char *s, int n, const char **clause);
+static const char *c15_deliver(const char *s, int n, int mode, const char **clause)
 {
-	static char lines[260][80]; int nl = reference_lines(s, n, lines);
-	console_fresh();
-	static inv_t all[260]; int nall = 0;
-	/* invocations are attributed to lines in order of completion: collect them all, then compare line by line */
-	ninv = 0;
+	c15_fresh();
+	console_t *c = c15_con;
 	uint32_t t = 100;
+	int per_char = mode < 2;
+	const char *es = mode == 3 ? c15_eval_string(0, s, n) : NULL;
 	if (VX_TRY) {
-		if (mode == 0) for (int i = 0; i < n; i++) console_process(CON, s[i]);
-		else if (mode == 1) for (int i = 0; i < n; i++) { console_putchar(CON, s[i]); for (int k = 0; k < 6; k++) fibre_scheduler_next(t++); }
+		if (mode == 0) for (int i = 0; i < n; i++) { c15_poison_tail(c); c15_poison_armed = 1; console_process(c, s[i]); }
+		else if (mode == 1) for (int i = 0; i < n; i++) { c15_poison_tail(c); c15_poison_armed = 1; console_putchar(c, s[i]); for (int k = 0; k < 6; k++) fibre_scheduler_next(t++); }
 		else if (mode == 2) {
 			for (int i = 0; i < n; ) {
 				int burst = 0;
-				while (i < n && burst < 14) { console_putchar(CON, s[i++]); burst++; }
+				while (i < n && burst < C15_RINGSZ - 2) { console_putchar(c, s[i++]); burst++; }
 				for (int k = 0; k < 64; k++) fibre_scheduler_next(t++);
-				if (ninv >= 259) break;
+				if (c15_ninv >= C15_MAXINV - 1) break;
 			}
-		} else {
-			fibre_init(&evalf, eval_body); PT_INIT(&evalpt); evalstr = s; eval_done = 0;
-			fibre_run(&evalf);
-			int k;
-			int maxpass = 400 + 8 * n;
-			for (k = 0; k < maxpass && (!eval_done || !ringbuf_empty(&CON->ring) || kernel.runq.head); k++) fibre_scheduler_next(t++);
-			for (int j = 0; j < 8; j++) fibre_scheduler_next(t++);
-			if (!eval_done) { VX_END; *clause = "eval-never-completes"; return "console_eval has not exited after 400 + 8 x length scheduling passes"; }
+		} else if (!c15_run_eval(es, n, &t)) {
+			VX_END; *clause = "eval-never-completes"; return "console_eval has not exited after 400 + 8 x length scheduling passes";
 		}
 		VX_END;
-	} else { VX_END; *clause = "fault"; snprintf(failbuf, sizeof(failbuf), "%s", vx_fault_msg); return failbuf; }
-	if (!scratch_tail_clean(CON) || !canaries_ok()) { *clause = "write-outside-line-buffer"; return "the console wrote outside its 80-byte line buffer"; }
-	nall = ninv < 260 ? ninv : 260; memcpy(all, invs, sizeof(inv_t) * (size_t)nall);
+	} else { VX_END; c15_after_fault(); *clause = "fault"; snprintf(c15_failbuf, sizeof(c15_failbuf), "%s", vx_fault_msg); return c15_failbuf; }
+	c15_poison_armed = 0;
+	if (!c15_canaries_ok()) { *clause = "write-outside-console"; return "the console wrote in front of its own structure"; }
+	if (C15_SCRATCHSZ > C15_LINESZ) {
+		/* per character the poison was renewed before every character: after the last one it is untouched or wiped by the new
+		 * prompt; in the other modes nothing was put there and the area must still be clear */
+		int ts = c15_tail_state(c);
+		if (per_char ? ts == 2 : ts != 1) { *clause = "write-outside-line-buffer"; return "the console wrote behind its line buffer"; }
+	}
+	return c15_compare_stream(s, n, clause);
+}
+/* the invocations in c15_invs / c15_builtin_hits against the lines the stream completes */
+static const char *c15_compare_stream(const char *s, int n, const char **clause)
+{
+	static char lines[C15_MAXLINES][C15_LINESZ + 1]; static uint8_t kind[C15_MAXLINES];
+	int nl = c15_reference_lines(s, n, lines, kind);
+	int nall = c15_ninv < C15_MAXINV ? c15_ninv : C15_MAXINV;
 	/* memory safety of what the commands were handed holds for every line, specified or not */
-	for (int i = 0; i < nall; i++) if (all[i].bad) {
-		*clause = "argv-unsafe";
-		snprintf(failbuf, sizeof(failbuf), "a command received %s", all[i].bad == 1 ? "argc outside 1..4" : all[i].bad == 2 ? "an argv pointer outside the line buffer" : "an argv string that is not NUL-terminated inside the line buffer");
-		return failbuf;
+	for (int i = 0; i < nall; i++) if (c15_invs[i].bad) {
+		*clause = c15_bad_clause(c15_invs[i].bad);
+		snprintf(c15_failbuf, sizeof(c15_failbuf), "a command received %s (argc=%d)", c15_bad_text(c15_invs[i].bad), c15_invs[i].argc);
+		return c15_failbuf;
 	}
 	/* expected invocations: one per specified line that names a command */
-	int gi = 0;
+	int gi = 0; uint64_t want_hits = 0;
 	for (int l = 0; l < nl; l++) {
-		expect_t e; reference_tokenize(lines[l], &e);
-		if (e.unspecified) {
+		c15_expect_t e; c15_reference_tokenize(lines[l], &e);
+		if (kind[l] == 3 || e.unspecified) {
 			/* cannot tell whether this line ran a command: stop comparing this stream here (safety already checked) */
-			n_lines_unspecified++; return NULL;
+			c15_n_lines_unspecified++; return NULL;
 		}
-		int expect_run = e.cmd >= 0;
-		const char *why = check_line(lines[l], all + gi, expect_run && gi < nall ? 1 : 0, clause);
+		int expect_run = e.cmd >= 0 && e.cmd < C15_BUILTIN_BASE;
+		if (e.cmd >= C15_BUILTIN_BASE) want_hits |= 1ull << (e.cmd - C15_BUILTIN_BASE);
+		const char *why = c15_check_line(lines[l], c15_invs + gi, expect_run && gi < nall ? 1 : 0, 0, 0, clause);
 		if (why) return why;
 		if (expect_run) gi++;
 	}
-	if (gi != ninv) { *clause = "dispatch-extra"; snprintf(failbuf, sizeof(failbuf), "%d command invocations, the stream completes lines that name %d", ninv, gi); return failbuf; }
+	if (gi != c15_ninv) {
+		*clause = "dispatch-extra";
+		int k = snprintf(c15_failbuf, sizeof(c15_failbuf), "%d command invocations, the stream completes lines that name %d", c15_ninv, gi);
+		if (gi < nall) snprintf(c15_failbuf + k, sizeof(c15_failbuf) - (size_t)k, "; the first one too many is '%s' with argv[1]=\"%s\"", c15_cmdname[c15_invs[gi].cmd], c15_show(c15_invs[gi].argv[1]));
+		return c15_failbuf;
+	}
+	uint64_t hits = c15_builtin_hits;
+	if (hits & ~want_hits) { *clause = "dispatch-unknown"; snprintf(c15_failbuf, sizeof(c15_failbuf), "the built-in command '%s' ran although no line of the stream names it", c15_builtin_name[c15_first_bit(hits & ~want_hits)]); return c15_failbuf; }
+	if (want_hits & ~hits) { *clause = "dispatch-missing"; snprintf(c15_failbuf, sizeof(c15_failbuf), "a line names the built-in command '%s' but it did not run", c15_builtin_name[c15_first_bit(want_hits & ~hits)]); return c15_failbuf; }
 	return NULL;
 }
-static void stream_text(const char *s, int n, vx_sb *sb)
+static void c15_stream_text(const char *s, int n, vx_sb *sb)
 {
-	for (int i = 0; i < n; i++) { int k = 0; while (k < NALPHA && alphabet[k] != s[i]) k++; vx_sb_printf(sb, "%s%s", i ? " " : "", k < NALPHA ? alphaname[k] : "?"); }
+	/* short streams symbol by symbol, long ones as text with their length (signatures must stay readable) */
+	if (n > 40) vx_sb_printf(sb, "%d:", n);
+	int lim = n > 60 ? 60 : n;
+	for (int i = 0; i < lim; i++) {
+		unsigned char ch = (unsigned char)s[i];
+		const char *nm = ch == ' ' ? "SP" : ch == '\n' ? "NL" : ch == '\b' ? "BS" : ch == 3 ? "^C" : ch == '\t' ? "TAB" : NULL;
+		if (n > 40) { if (nm) vx_sb_printf(sb, "<%s>", nm); else vx_sb_printf(sb, "%c", ch); }
+		else { if (nm) vx_sb_printf(sb, "%s%s", i ? " " : "", nm); else vx_sb_printf(sb, "%s%c", i ? " " : "", ch); }
+	}
+	if (lim < n) vx_sb_printf(sb, "...");
 }
-static const char *modename[] = { "console_process", "console_putchar+pass-per-char", "console_putchar-bursts+passes", "console_eval-in-a-fibre" };
-static int report_stream(const char *s, int n, int mode, const char *clause, const char *why, const char *family)
+static const char *c15_modename[] = { "console_process", "console_putchar+pass-per-char", "console_putchar-bursts+passes", "console_eval-in-a-fibre" };
+static int c15_report_stream(const char *s, int n, int mode, const char *clause, const char *why, const char *family)
 {
 	vx_sb sig = {0}, rep = {0}, st = {0};
-	stream_text(s, n, &st);
-	vx_sb_printf(&sig, "%s|%s|%s|%s", clause, modename[mode], family, st.s ? st.s : "");
+	c15_stream_text(s, n, &st);
+	vx_sb_printf(&sig, "%s|%s|%s|%s", clause, c15_modename[mode], family, st.s ? st.s : "");
 	vx_sb_printf(&rep, "part=B\nmode=%d\nfamily=%s\nstream=", mode, family);
 	for (int i = 0; i < n; i++) vx_sb_printf(&rep, "%02x", (unsigned char)s[i]);
 	vx_sb_printf(&rep, "\n");
-	vx_violation(sig.s, rep.s, "%s: stream [%s] delivered with %s: %s", clause, st.s ? st.s : "", modename[mode], why);
+	vx_violation(sig.s, rep.s, "%s: stream [%s] delivered with %s: %s", clause, st.s ? st.s : "", c15_modename[mode], why);
 	free(sig.s); free(rep.s); free(st.s);
 	return 1;
 }
+static int c15_stop;	/* too many violations or hangs: stop enumerating (the run is then not called exhaustive) */
+static int c15_should_stop(void)
+{
+	if (!c15_stop && (vx_too_many_violations() || vx_hangs_seen >= 3 || vx_deadline_passed())) { c15_stop = 1; vx_and("exhaustive", 0); }
+	return c15_stop;
+}
 /* all deliveries of one stream; returns number of violations */
-static int try_stream(const char *s0, int n, const char *family, int modes_mask)
+static int c15_try_stream(const char *s0, int n, const char *family, int modes_mask)
 {
 	int bad = 0;
-	char s[1400]; memcpy(s, s0, (size_t)n); s[n] = 0;	/* console_eval takes a C string */
-	n_streams++;
+	static char s[C15_MAXSTREAM + 8];
+	if (n > C15_MAXSTREAM || c15_should_stop()) return 0;
+	/* the quantifier: printable characters, blank, tab, backspace, Ctrl-C, newline - nothing else is ever delivered */
+	for (int i = 0; i < n; i++) { unsigned char ch = (unsigned char)s0[i]; if (!((ch >= 0x20 && ch <= 0x7e) || ch == '\t' || ch == '\n' || ch == '\b' || ch == 3)) { c15_n_guard_skips++; return 0; } }
+	memcpy(s, s0, (size_t)n); s[n] = 0;
+	c15_n_streams++;
 	for (int mode = 0; mode < 4; mode++) {
 		if (!(modes_mask & (1 << mode))) continue;
 		if (mode == 3 && memchr(s, 0, (size_t)n)) continue;
 		const char *clause = "";
-		n_deliveries[mode > 2 ? 2 : mode ? 1 : 0]++;
-		const char *why = deliver(s, n, mode, &clause);
-		if (why) bad += report_stream(s, n, mode, clause, why, family);
+		c15_n_deliveries[mode]++;
+		const char *why = c15_deliver(s, n, mode, &clause);
+		if (why) bad += c15_report_stream(s, n, mode, clause, why, family);
 	}
 	return bad;
 }
 
-/* ------------------------------------------------------------ part C: registration */
-static uint64_t n_reg_orders, n_reg_lookups;
-static const console_cmd_t pool_cmds[4] = { CONSOLE_CMD_VAR_INIT("a", cmd_a_fn), CONSOLE_CMD_VAR_INIT("ab", cmd_ab_fn), CONSOLE_CMD_VAR_INIT("b", cmd_b_fn), CONSOLE_CMD_VAR_INIT("ba", cmd_a_fn) };
-static console_cmd_t filler[40]; static char fillname[40][8];
-static void reg_fail(const char *clause, const char *desc, const char *why)
+/* ---- family "short": every stream over alphabet 1 up to a length, ending in a newline */
+static void c15_enum_streams(char *s, int pos, int len, int modes, int *bad)
+{
+	if (pos == len) { if (*bad < 6) *bad += c15_try_stream(s, len, "short", modes); return; }
+	for (int k = 0; k < c15_alphas[0].n; k++) {
+		if (pos == len - 1 && c15_alphas[0].chars[k] != '\n') continue;	/* so that the last line is observed */
+		s[pos] = c15_alphas[0].chars[k];
+		c15_enum_streams(s, pos + 1, len, modes, bad);
+	}
+}
+
+/* ---- character classes used by the generated families: every printable character except blank and the two quotes */
+static char c15_printable_at(int i, int pat)
+{
+	static const char lower[] = "abcdefghijklmnopqrstuvwxyz0123456789";
+	if (pat == 0) return lower[i % 36];
+	/* 0x21..0x7e without ' and " : 92 characters, upper case, digits, punctuation, both ends of the range */
+	int k = (i * 7 + pat) % 92, ch = 0x21 + k;
+	if (ch >= '"') ch++;
+	if (ch >= '\'') ch++;
+	return (char)ch;
+}
+/* ending of a line of `len` characters: newline below the capacity; at the capacity the buffer has filled: variants of
+ * what follows (all end in Ctrl-C or newline so that what comes next is determined) */
+static int c15_end_line(char *s, int n, int len, int ending)
+{
+	if (len < C15_CAP) { s[n++] = '\n'; return n; }
+	if (ending == 0) { s[n++] = 'a'; s[n++] = 3; }
+	else if (ending == 1) s[n++] = 3;
+	else s[n++] = '\n';
+	return n;
+}
+static uint64_t c15_n_fam[10];
+static const char *c15_famname[10] = { "short", "long", "names", "script", "printable", "tokens", "unknown", "evalseq", "registration", "part A" };
+
+/* ---- family "long": lines of every length 1..capacity with 1..4 tokens (name + arguments that share the rest), plain and
+ * with a quoted last argument, followed by a second long line and a short one */
+static int c15_make_line(char *s, int L, int k, int pat, int quoted)
+{
+	/* name: a / b / ab by pattern; k-1 arguments share L - strlen(name) - (k-1) characters */
+	const char *name = pat % 3 == 0 ? "b" : pat % 3 == 1 ? "ab" : "a";
+	int nl = (int)strlen(name), n = 0;
+	if (k == 1) {	/* a bare name: only the lengths that are names */
+		int match[C15_NCMD], nm = 0;
+		for (int c = 0; c < C15_NCMD; c++) if ((int)strlen(c15_cmdname[c]) == L) match[nm++] = c;
+		if (!nm || quoted) return 0;
+		memcpy(s, c15_cmdname[match[pat % nm]], (size_t)L);
+		return L;
+	}
+	int rest = L - nl - (k - 1) - (quoted ? 2 : 0);
+	if (rest < k - 1 || (quoted && rest < k + 1)) return 0;
+	memcpy(s, name, (size_t)nl); n = nl;
+	int each = rest / (k - 1);
+	for (int a = 1; a < k; a++) {
+		int al = a == k - 1 ? rest - each * (k - 2) : each;
+		s[n++] = (a + pat) % 3 == 0 ? '\t' : ' ';
+		int q = quoted && a == k - 1;
+		if (q) s[n++] = (pat & 1) ? '\'' : '"';
+		for (int i = 0; i < al; i++) { char x = (q && i > 0 && i < al - 1 && i % 4 == 2) ? ' ' : c15_printable_at(n + a, pat); s[n++] = x; }
+		if (q) s[n++] = (pat & 1) ? '\'' : '"';
+	}
+	return n;
+}
+static void c15_family_long(int slice, int nslices)
+{
+	static char s[4 * C15_LINESZ + 64];
+	int bad = 0, sampled = 0;
+	for (int L = 1; L <= C15_CAP && bad < 6; L++) {
+		if (L % nslices != slice) continue;
+		for (int k = 1; k <= C15_MAXARG; k++) for (int pat = 0; pat < 3; pat++) for (int quoted = 0; quoted < 2; quoted++) {
+			if (quoted && k == C15_MAXARG) continue;	/* a quoted fourth token is left open by the statement */
+			for (int ending = 0; ending < (L == C15_CAP ? 3 : 1) && bad < 6; ending++) {
+				int n = c15_make_line(s, L, k, pat, quoted);
+				if (!n) { c15_n_guard_skips++; continue; }
+				n = c15_end_line(s, n, L, ending);
+				/* a second line, long as well: both together straddle the ring several times */
+				int L2 = C15_CAP - 1 - (L * 5) % (C15_CAP - 9);
+				int m = c15_make_line(s + n, L2, 3, pat + 1, 0);
+				if (m) { n += m; s[n++] = '\n'; }
+				s[n++] = 'b'; s[n++] = ' '; s[n++] = 'a'; s[n++] = '\n';
+				c15_n_fam[1]++;
+				if (!sampled && L > 40 && k == 3 && vx_want_sample()) { sampled = 1; vx_sb sb = {0}; c15_stream_text(s, n, &sb); vx_sample("family long: %s", sb.s); free(sb.s); }
+				bad += c15_try_stream(s, n, "long", 15);
+			}
+		}
+	}
+}
+
+/* ---- family "unknown": first tokens of every length 1..capacity that name nothing, alone and with an argument */
+static void c15_family_unknown(int slice, int nslices)
+{
+	static char s[2 * C15_LINESZ + 64];
+	int bad = 0, sampled = 0;
+	for (int L = 1; L <= C15_CAP && bad < 6; L++) {
+		if (L % nslices != slice) continue;
+		for (int pat = 0; pat < 4; pat++) for (int witharg = 0; witharg < 2; witharg++) for (int ending = 0; ending < 3 && bad < 6; ending++) {
+			int n = 0, tl = witharg ? L - 2 : L;
+			if (tl < 1) continue;
+			if (ending && L < C15_CAP) continue;
+			/* pat 0: lower case + digits from 'z'..; 1, 2: all printables; 3: the longest registered name and more of the same */
+			for (int i = 0; i < tl; i++) s[n++] = pat == 3 ? "ab"[i & 1] : pat == 0 ? c15_printable_at(i + 25, 0) : c15_printable_at(i, pat + 4);
+			s[n] = 0;
+			if (c15_is_known_name(s)) { c15_n_guard_skips++; continue; }
+			if (witharg) { s[n++] = ' '; s[n++] = 'x'; }
+			n = c15_end_line(s, n, L, ending);
+			s[n++] = 'b'; s[n++] = ' '; s[n++] = 'a'; s[n++] = '\n';
+			c15_n_fam[6]++;
+			if (!sampled && L > 30 && pat == 1 && vx_want_sample()) { sampled = 1; vx_sb sb = {0}; c15_stream_text(s, n, &sb); vx_sample("family unknown: %s", sb.s); free(sb.s); }
+			bad += c15_try_stream(s, n, "unknown", 15);
+		}
+	}
+}
+
+/* ---- family "printable": every printable character as a name, glued to a name in front and behind, and in arguments */
+static void c15_family_printable(void)
+{
+	char s[64]; int bad = 0;
+	for (int x = 0x21; x <= 0x7e && bad < 6; x++) {
+		int n = 0;
+		s[n++] = (char)x; s[n++] = '\n';
+		s[n++] = 'a'; s[n++] = (char)x; s[n++] = '\n';
+		s[n++] = (char)x; s[n++] = 'a'; s[n++] = '\n';
+		s[n++] = 'b'; s[n++] = ' '; s[n++] = (char)x; s[n++] = 'b'; s[n++] = (char)x; s[n++] = '\t'; s[n++] = (char)x; s[n++] = '\n';
+		s[n++] = 'a'; s[n++] = 'b'; s[n++] = ' '; s[n++] = 'Q'; s[n++] = (char)x; s[n++] = '\n';
+		c15_n_fam[4]++;
+		if (x == '~' && vx_want_sample()) { vx_sb sb = {0}; c15_stream_text(s, n, &sb); vx_sample("family printable: %s", sb.s); free(sb.s); }
+		bad += c15_try_stream(s, n, "printable", 15);
+	}
+}
+
+/* ---- family "names": around every registered and built-in name: exact, other case, one shorter, one longer, differing late */
+static void c15_family_names(void)
+{
+	static char s[C15_LINESZ * 2];
+	int bad = 0, total = C15_NCMD + c15_nbuiltin;
+	for (int c = 0; c < total && bad < 6; c++) {
+		const char *nm = c < C15_NCMD ? c15_cmdname[c] : c15_builtin_name[c - C15_NCMD];
+		int l = (int)strlen(nm);
+		if (l + 8 > C15_CAP) continue;
+		for (int v = 0; v < 12 && bad < 6; v++) {
+			char w[C15_LINESZ]; memcpy(w, nm, (size_t)l + 1); int wl = l;
+			switch (v) {
+			case 0: break;
+			case 1: for (int i = 0; i < wl; i++) if (w[i] >= 'a' && w[i] <= 'z') w[i] = (char)(w[i] - 32); break;	/* upper case */
+			case 2: for (int i = 0; i < wl; i++) if (w[i] >= 'A' && w[i] <= 'Z') w[i] = (char)(w[i] + 32); break;	/* lower case */
+			case 3: if ((w[0] | 0x20) >= 'a' && (w[0] | 0x20) <= 'z') w[0] = (char)(w[0] ^ 0x20); else w[0] = (char)(w[0] + 1); break;	/* first character: other case / neighbour */
+			case 4: if ((w[wl - 1] | 0x20) >= 'a' && (w[wl - 1] | 0x20) <= 'z') w[wl - 1] = (char)(w[wl - 1] ^ 0x20); else w[wl - 1] = (char)(w[wl - 1] - 1); break;
+			case 5: w[--wl] = 0; break;										/* one shorter */
+			case 6: w[wl] = w[wl - 1]; w[++wl] = 0; break;								/* one longer */
+			case 7: w[wl++] = '~'; w[wl] = 0; break;
+			case 8: memmove(w + 1, w, (size_t)wl + 1); w[0] = '!'; wl++; break;
+			case 9: w[wl - 1] = (char)(w[wl - 1] + 1); break;							/* differs in the last character */
+			case 10: w[wl - 1] = (char)(w[wl - 1] - 1); break;
+			case 11: w[wl++] = '0'; w[wl] = 0; break;
+			}
+			if (wl < 1) continue;
+			int n = 0;
+			memcpy(s + n, w, (size_t)wl); n += wl; s[n++] = '\n';
+			memcpy(s + n, w, (size_t)wl); n += wl; s[n++] = ' '; s[n++] = 'X'; s[n++] = '\t'; s[n++] = '\''; s[n++] = 'b'; s[n++] = ' '; s[n++] = 'B'; s[n++] = '\''; s[n++] = '\n';
+			c15_n_fam[2]++;
+			if (c == 5 && v == 1 && vx_want_sample()) { vx_sb sb = {0}; c15_stream_text(s, n, &sb); vx_sample("family names: %s", sb.s); free(sb.s); }
+			bad += c15_try_stream(s, n, "names", 15);
+		}
+	}
+	/* all the names in one stream */
+	int n = 0;
+	for (int c = 0; c < total; c++) { const char *nm = c < C15_NCMD ? c15_cmdname[c] : c15_builtin_name[c - C15_NCMD]; int l = (int)strlen(nm); if (n + l + 2 < (int)sizeof(s)) { memcpy(s + n, nm, (size_t)l); n += l; s[n++] = '\n'; } }
+	c15_n_fam[2]++;
+	c15_try_stream(s, n, "names", 15);
+}
+
+/* ---- family "tokens": lines of 1..K tokens, every combination of token kinds (plain, upper case / punctuation, single- and
+ * double-quoted, quoted with a blank, quoted with the other quote inside), three kinds of separator */
+static const char *const c15_tok_kind[6] = { "a", "'a'", "\"b\"", "bB~", "'a B'", "\"!'~\"" };
+static const char *const c15_tok_first[3] = { "a", "ab", "b" };
+static void c15_family_tokens(int first, int K, int nkinds)
+{
+	static char s[128];
+	int bad = 0;
+	for (int k = 1; k <= K && bad < 6; k++) {
+		int idx[8] = {0};
+		for (;;) {
+			for (int sep = 0; sep < 3 && bad < 6; sep++) {
+				int n = 0;
+				n += snprintf(s + n, sizeof(s) - (size_t)n, "%s", c15_tok_first[first]);
+				for (int a = 1; a < k; a++) n += snprintf(s + n, sizeof(s) - (size_t)n, "%s%s", sep == 0 ? " " : sep == 1 ? "\t" : "  ", c15_tok_kind[idx[a]]);
+				if (n >= C15_CAP) { c15_n_guard_skips++; continue; }
+				s[n++] = '\n'; s[n++] = 'b'; s[n++] = ' '; s[n++] = 'a'; s[n++] = '\n';
+				c15_n_fam[5]++;
+				if (k == 5 && idx[1] == 1 && idx[2] == 4 && idx[3] == 0 && idx[4] == 2 && sep == 0 && vx_want_sample()) { vx_sb sb = {0}; c15_stream_text(s, n, &sb); vx_sample("family tokens: %s", sb.s); free(sb.s); }
+				bad += c15_try_stream(s, n, "tokens", 15);
+			}
+			int a = k - 1;
+			while (a >= 1 && ++idx[a] == nkinds) idx[a--] = 0;
+			if (a < 1 || bad >= 6 || c15_stop) break;
+		}
+	}
+}
+
+/* ---- family "script": many short lines, total length around the sizes a narrow cursor would wrap at */
+static void c15_family_script(void)
+{
+	static char s[C15_MAXSTREAM + 8];
+	static const int totals[] = { 120, 254, 255, 256, 257, 258, 300, 511, 512, 513, 1000 };
+	int bad = 0;
+	for (unsigned ti = 0; ti < sizeof(totals) / sizeof(totals[0]) && bad < 6; ti++) {
+		int n = 0, line = 0;
+		while (n < totals[ti]) {
+			const char *l = (line % 3 == 0) ? "ab a\n" : (line % 3 == 1) ? "b\n" : "a bb ab\n";
+			int ll = (int)strlen(l);
+			if (n + ll > totals[ti]) { while (n < totals[ti] - 1) s[n++] = ' '; s[n++] = '\n'; break; }
+			memcpy(s + n, l, (size_t)ll); n += ll; line++;
+		}
+		s[n] = 0;
+		c15_n_fam[3]++;
+		bad += c15_try_stream(s, n, "script", 13);	/* console_process, putchar bursts, console_eval */
+	}
+}
+
+/* ------------------------------------------------------------ part E: several console_eval calls on one console */
+static const char *const c15_eval_pool[] = {
+	"", "a\n", "ab 1 2\n", "b 3\na 4\n", "a", " 'x Y' ~\n", "b\n",
+	"ab 0123456789 ABCDEFGHIJKLMNOPQRST\nb 'u v' w\n",	/* longer than the ring, two lines */
+};
+#define C15_NPOOL ((int)(sizeof(c15_eval_pool) / sizeof(c15_eval_pool[0])))
+static uint64_t c15_n_evals, c15_n_empty_evals;
+static int c15_evalseq_case(const int *idx, int n)
+{
+	static char cat[C15_MAXSTREAM]; int cn = 0;
+	const char *clause = "", *why = NULL;
+	char desc[64]; int dk = 0;
+	if (c15_should_stop()) return 0;
+	for (int i = 0; i < n; i++) dk += snprintf(desc + dk, sizeof(desc) - (size_t)dk, "%s%d", i ? "," : "", idx[i]);
+	c15_fresh();
+	uint32_t t = 100;
+	c15_n_fam[7]++; c15_n_streams++;
+	const char *es[3];
+	for (int i = 0; i < n; i++) { const char *p = c15_eval_pool[idx[i]]; int l = (int)strlen(p); es[i] = c15_eval_string(i, p, l); memcpy(cat + cn, p, (size_t)l); cn += l; }
+	if (VX_TRY) {
+		for (int i = 0; i < n && !why; i++) {
+			c15_n_evals++; if (!es[i][0]) c15_n_empty_evals++;
+			c15_n_deliveries[3]++;
+			if (!c15_run_eval(es[i], (int)strlen(es[i]), &t)) { clause = "eval-never-completes"; snprintf(c15_failbuf, sizeof(c15_failbuf), "console_eval number %d on this console has not exited after 400 + 8 x length scheduling passes", i + 1); why = c15_failbuf; }
+		}
+		VX_END;
+	} else { VX_END; c15_after_fault(); clause = "fault"; snprintf(c15_failbuf, sizeof(c15_failbuf), "%s", vx_fault_msg); why = c15_failbuf; }
+	if (!why && !c15_canaries_ok()) { clause = "write-outside-console"; why = "the console wrote in front of its own structure"; }
+	if (!why && C15_SCRATCHSZ > C15_LINESZ && c15_tail_state(c15_con) != 1) { clause = "write-outside-line-buffer"; why = "the console wrote behind its line buffer"; }
+	/* executed once: the invocations are those of the concatenated strings, nothing else */
+	if (!why) why = c15_compare_stream(cat, cn, &clause);
+	if (!why) return 0;
+	vx_sb sig = {0}, rep = {0}, st = {0};
+	for (int i = 0; i < n; i++) { vx_sb_printf(&st, "%s\"", i ? " then " : ""); const char *p = c15_eval_pool[idx[i]]; for (; *p; p++) { if (*p == '\n') vx_sb_printf(&st, "\\n"); else vx_sb_printf(&st, "%c", *p); } vx_sb_printf(&st, "\""); }
+	vx_sb_printf(&sig, "%s|console_eval-sequence|%s", clause, st.s);
+	vx_sb_printf(&rep, "part=E\nseq=%s\n", desc);
+	vx_violation(sig.s, rep.s, "%s: console_eval of %s, one after the other on one console: %s", clause, st.s, why);
+	free(sig.s); free(rep.s); free(st.s);
+	return 1;
+}
+static void c15_family_evalseq(int slice, int nslices)
+{
+	int bad = 0, idx[3];
+	for (int n = 1; n <= 3; n++) {
+		int total = 1; for (int i = 0; i < n; i++) total *= C15_NPOOL;
+		for (int code = 0; code < total && bad < 6; code++) {
+			if (code % nslices != slice) continue;
+			int c = code; for (int i = 0; i < n; i++) { idx[i] = c % C15_NPOOL; c /= C15_NPOOL; }
+			if (n == 3 && idx[0] == 2 && idx[1] == 0 && idx[2] == 3 && vx_want_sample()) vx_sample("family evalseq: console_eval(\"ab 1 2\\n\"), then console_eval(\"\"), then console_eval(\"b 3\\na 4\\n\") on the same console");
+			bad += c15_evalseq_case(idx, n);
+		}
+	}
+}
+
+/* ------------------------------------------------------------ part C: registration, judged by what a typed name runs */
+static uint64_t c15_n_reg_orders, c15_n_reg_lookups;
+typedef struct { int fault, ninv, cmd; const console_cmd_t *desc; uint64_t hits; } c15_found_t;
+/* type `name` + newline into a fresh console on library image `img` */
+static c15_found_t c15_lookup(const void *img, const char *name)
+{
+	c15_found_t f; memset(&f, 0, sizeof(f));
+	c15_fresh_from(img);
+	c15_n_reg_lookups++;
+	if (VX_TRY) {
+		for (const char *p = name; *p; p++) console_process(c15_con, *p);
+		console_process(c15_con, '\n');
+		VX_END;
+	} else { VX_END; c15_after_fault(); f.fault = 1; return f; }
+	f.ninv = c15_ninv; f.hits = c15_builtin_hits;
+	if (c15_ninv) { f.cmd = c15_invs[0].cmd; f.desc = c15_invs[0].desc; }
+	return f;
+}
+#define C15_POOLBASE 20
+static pt_state_t c15_pool0_fn(console_t *c) { return c15_capture(c, C15_POOLBASE + 0); }
+static pt_state_t c15_pool1_fn(console_t *c) { return c15_capture(c, C15_POOLBASE + 1); }
+static pt_state_t c15_pool2_fn(console_t *c) { return c15_capture(c, C15_POOLBASE + 2); }
+static pt_state_t c15_pool3_fn(console_t *c) { return c15_capture(c, C15_POOLBASE + 3); }
+static pt_state_t c15_filler_fn(console_t *c) { return c15_capture(c, 99); }
+static const console_cmd_t c15_pool_cmds[4] = { CONSOLE_CMD_VAR_INIT("a", c15_pool0_fn), CONSOLE_CMD_VAR_INIT("ab", c15_pool1_fn), CONSOLE_CMD_VAR_INIT("B", c15_pool2_fn), CONSOLE_CMD_VAR_INIT("ba", c15_pool3_fn) };
+static void c15_reg_fail(const char *clause, const char *desc, const char *why)
 {
 	vx_sb sig = {0}, rep = {0};
 	vx_sb_printf(&sig, "%s|registration|%s", clause, desc);
@@ -361,66 +938,171 @@ static void reg_fail(const char *clause, const char *desc, const char *why)
 	vx_violation(sig.s, rep.s, "%s: %s: %s", clause, desc, why);
 	free(sig.s); free(rep.s);
 }
-static const console_cmd_t *lookup(const char *name)
+static void *c15_img_tmp, *c15_img_tmp2;
+/* every built-in is still found, the empty line and unknown names find nothing; NULL if fine */
+static const char *c15_common_lookups(const void *img, const char *const *unknown, int nunknown)
 {
-	console_t *c = CON;
-	snprintf(c->scratch.buf, 80, "%s", name); c->argv[0] = c->scratch.buf;
-	find_command(c);
-	n_reg_lookups++;
-	return c->cmd;
+	static char w[200];
+	for (int j = 0; j < c15_nbuiltin; j++) {
+		c15_found_t f = c15_lookup(img, c15_builtin_name[j]);
+		if (f.fault) { snprintf(w, sizeof(w), "%s while the built-in name '%s' was typed", vx_fault_msg, c15_builtin_name[j]); return w; }
+		if (f.ninv || f.hits != (1ull << j)) { snprintf(w, sizeof(w), "the built-in command '%s' is no longer found by its name", c15_builtin_name[j]); return w; }
+	}
+	for (int u = 0; u < nunknown; u++) {
+		c15_found_t f = c15_lookup(img, unknown[u]);
+		if (f.fault) { snprintf(w, sizeof(w), "%s while the unknown name '%s' was typed", vx_fault_msg, unknown[u]); return w; }
+		if (f.ninv || f.hits) { snprintf(w, sizeof(w), "the %s '%s' runs a command", unknown[u][0] ? "unregistered name" : "empty line", unknown[u]); return w; }
+	}
+	return NULL;
 }
-static void part_c_case(const int *order, int n, const char *only)
+static void c15_part_c_case(const int *order, int n, const char *only)
 {
 	char desc[96]; int k = snprintf(desc, sizeof(desc), "order");
-	for (int i = 0; i < n; i++) k += snprintf(desc + k, sizeof(desc) - (size_t)k, " %s", pool_cmds[order[i]].name);
+	for (int i = 0; i < n; i++) k += snprintf(desc + k, sizeof(desc) - (size_t)k, " %s", c15_pool_cmds[order[i]].name);
 	if (only && strcmp(only, desc)) return;
-	n_reg_orders++;
-	table_reset();
-	if (VX_TRY) {
-		for (int i = 0; i < n; i++) if (console_register(&pool_cmds[order[i]]) != 0) { VX_END; reg_fail("register-refused", desc, "console_register failed although the table has room"); return; }
-		for (int p = 0; p < 4; p++) {
-			int present = 0; for (int i = 0; i < n; i++) present |= (order[i] == p);
-			const console_cmd_t *f = lookup(pool_cmds[p].name);
-			if (present && f != &pool_cmds[p]) { VX_END; char w[96]; snprintf(w, sizeof(w), "registered command '%s' is not found by its exact name", pool_cmds[p].name); reg_fail("lookup", desc, w); return; }
-			if (!present && f->name) { VX_END; char w[96]; snprintf(w, sizeof(w), "name '%s' was never registered but a command is found", pool_cmds[p].name); reg_fail("lookup", desc, w); return; }
-		}
-		if (lookup("echo")->name == NULL || lookup("help")->name == NULL) { VX_END; reg_fail("lookup", desc, "a built-in command is no longer found"); return; }
-		if (lookup("")->name || lookup("abc")->name) { VX_END; reg_fail("lookup", desc, "an empty or unknown name finds a command"); return; }
-		VX_END;
-	} else { VX_END; reg_fail("fault", desc, vx_fault_msg); }
+	if (c15_should_stop()) return;
+	c15_n_reg_orders++; c15_n_fam[8]++;
+	vx_lib_reset();		/* the table as the library ships it */
+	int slots = (int)c15_shim_table_slots(), used = 0, okn = 0, inmask = 0;
+	{ const console_cmd_t **tab = c15_shim_table(); for (int i = 0; i < slots; i++) if (tab[i]) used++; }
+	for (int i = 0; i < n; i++) {
+		int r;
+		vx_lib_save(c15_img_tmp2);
+		if (VX_TRY) { r = console_register(&c15_pool_cmds[order[i]]); VX_END; }
+		else { VX_END; c15_after_fault(); c15_reg_fail("fault", desc, vx_fault_msg); return; }
+		if (r == 0) { okn++; inmask |= 1 << order[i]; continue; }
+		/* a table smaller than today's may be full before all four are in: then the refusal must change nothing */
+		if (used + okn < slots) { c15_reg_fail("register-refused", desc, "console_register failed although the table has room"); return; }
+		vx_lib_save(c15_img_tmp);
+		if (memcmp(c15_img_tmp, c15_img_tmp2, vx_lib_size())) { c15_reg_fail("failed-register-changes-table", desc, "console_register failed but the library's state was modified"); return; }
+	}
+	vx_lib_save(c15_img_tmp);
+	for (int p = 0; p < 4; p++) {
+		int present = (inmask >> p) & 1;
+		c15_found_t f = c15_lookup(c15_img_tmp, c15_pool_cmds[p].name);
+		char w[160];
+		if (f.fault) { snprintf(w, sizeof(w), "%s while the name '%s' was typed", vx_fault_msg, c15_pool_cmds[p].name); c15_reg_fail("fault", desc, w); return; }
+		if (present && (f.ninv != 1 || f.hits || f.cmd != C15_POOLBASE + p)) { snprintf(w, sizeof(w), "registered command '%s' is not found by its exact name", c15_pool_cmds[p].name); c15_reg_fail("lookup", desc, w); return; }
+		if (!present && (f.ninv || f.hits)) { snprintf(w, sizeof(w), "name '%s' was never registered but a command runs", c15_pool_cmds[p].name); c15_reg_fail("lookup", desc, w); return; }
+	}
+	static const char *const unknown[] = { "", "abc", "b", "A", "AB", "Ba" };
+	const char *why = c15_common_lookups(c15_img_tmp, unknown, 6);
+	if (why) c15_reg_fail(strstr(why, "while the") ? "fault" : "lookup", desc, why);
 }
-static void part_c_capacity(const char *only)
+static void c15_part_c_orders(const char *only)
 {
-	const char *desc = "fill to capacity and beyond";
+	for (int n = 1; n <= 4; n++) { int o[4]; for (o[0] = 0; o[0] < 4; o[0]++) for (o[1] = 0; o[1] < (n > 1 ? 4 : 1); o[1]++) for (o[2] = 0; o[2] < (n > 2 ? 4 : 1); o[2]++) for (o[3] = 0; o[3] < (n > 3 ? 4 : 1); o[3]++) {
+		int dup = 0; for (int i = 0; i < n; i++) for (int j = 0; j < i; j++) dup |= o[i] == o[j];
+		if (!dup) c15_part_c_case(o, n, only); } }
+}
+/* fill the table to its capacity and beyond. The capacity is the library's: `slots` entries of which `used` are taken when
+ * the program starts (built-ins and the end marker). While a slot is free registration must succeed; a failed registration
+ * changes nothing (the whole library image is compared); whatever succeeded is found afterwards, every time */
+static void c15_part_c_capacity(int ascending, const char *only)
+{
+	const char *desc = ascending ? "fill to capacity and beyond, ascending names" : "fill to capacity and beyond, descending names";
 	if (only && strcmp(only, desc)) return;
-	n_reg_orders++;
-	table_reset();
-	int ok = 0;
-	if (VX_TRY) {
-		for (int i = 0; i < 40; i++) {
-			/* descending names: every insertion shifts the whole table */
-			snprintf(fillname[i], sizeof(fillname[i]), "z%02d", 60 - i); filler[i].name = fillname[i]; filler[i].fn = cmd_a_fn;
-			const console_cmd_t *before[32]; memcpy(before, cmd_table, sizeof(before));
-			int r = console_register(&filler[i]);
-			if (r == 0) { ok++; if (lookup(fillname[i]) != &filler[i]) { VX_END; reg_fail("lookup", desc, "a command registered into a nearly full table is not found"); return; } }
-			else if (memcmp(before, cmd_table, sizeof(before))) { VX_END; reg_fail("failed-register-changes-table", desc, "console_register failed but the table was modified"); return; }
-			if (lookup("echo")->name == NULL) { VX_END; reg_fail("lookup", desc, "built-in 'echo' lost while filling the table"); return; }
-			if (lookup("zzz")->name != NULL) { VX_END; reg_fail("lookup", desc, "unknown name finds a command while filling the table"); return; }
+	if (c15_should_stop()) return;
+	c15_n_reg_orders++; c15_n_fam[8]++;
+	vx_lib_reset();
+	int slots = (int)c15_shim_table_slots(), used = 0;
+	const console_cmd_t **tab = c15_shim_table();
+	for (int i = 0; i < slots; i++) if (tab[i]) used++;
+	int tries = slots - used + 8;
+	console_cmd_t *filler = calloc((size_t)tries, sizeof(*filler)); char (*fname)[8] = calloc((size_t)tries, 8); uint8_t *in = calloc((size_t)tries, 1);
+	if (!filler || !fname || !in) _exit(3);
+	int ok = 0; char w[200];
+	static const char *const unknown[] = { "", "zzz", "z", "y000" };
+	for (int i = 0; i < tries; i++) {
+		/* descending names: every insertion shifts all earlier ones; ascending: always in front of the end marker */
+		snprintf(fname[i], 8, "z%04d", ascending ? 1000 + i : 9000 - i); filler[i].name = fname[i]; filler[i].fn = c15_filler_fn;
+		vx_lib_save(c15_img_tmp2);
+		int r;
+		if (VX_TRY) { r = console_register(&filler[i]); VX_END; }
+		else { VX_END; c15_after_fault(); snprintf(w, sizeof(w), "%s in registration number %d", vx_fault_msg, i + 1); c15_reg_fail("fault", desc, w); goto out; }
+		vx_lib_save(c15_img_tmp);
+		if (r == 0) { ok++; in[i] = 1; }
+		else {
+			if (used + ok < slots) { snprintf(w, sizeof(w), "registration number %d failed although %d of the table's %d slots are free", i + 1, slots - used - ok, slots); c15_reg_fail("capacity", desc, w); goto out; }
+			if (memcmp(c15_img_tmp, c15_img_tmp2, vx_lib_size())) { c15_reg_fail("failed-register-changes-table", desc, "console_register failed but the library's state was modified"); goto out; }
 		}
-		VX_END;
-	} else { VX_END; reg_fail("fault", desc, vx_fault_msg); return; }
-	if (ok != 29) { char w[96]; snprintf(w, sizeof(w), "%d registrations succeeded, the 32-entry table with 3 built-ins has room for 29", ok); reg_fail("capacity", desc, w); }
+		for (int q = 0; q <= i; q++) {
+			c15_found_t f = c15_lookup(c15_img_tmp, fname[q]);
+			if (f.fault) { snprintf(w, sizeof(w), "%s while the name '%s' was typed after registration number %d", vx_fault_msg, fname[q], i + 1); c15_reg_fail("fault", desc, w); goto out; }
+			if (in[q] && (f.ninv != 1 || f.hits || f.desc != &filler[q])) { snprintf(w, sizeof(w), "after registration number %d the registered command number %d is not found by its name", i + 1, q + 1); c15_reg_fail("lookup", desc, w); goto out; }
+			if (!in[q] && (f.ninv || f.hits)) { snprintf(w, sizeof(w), "after registration number %d (refused) its name runs a command", q + 1); c15_reg_fail("lookup", desc, w); goto out; }
+		}
+		const char *why = c15_common_lookups(c15_img_tmp, unknown, 4);
+		if (why) { snprintf(w, sizeof(w), "after registration number %d: %s", i + 1, why); c15_reg_fail(strstr(why, "while the") ? "fault" : "lookup", desc, w); goto out; }
+	}
+	if (used + ok < slots) { snprintf(w, sizeof(w), "%d registrations succeeded, the %d-slot table with %d entries at the start has room for %d", ok, slots, used, slots - used); c15_reg_fail("capacity", desc, w); }
+	vx_max("table_slots", (uint64_t)slots); vx_max("registrations_accepted", (uint64_t)ok);
+out:
+	free(filler); free(fname); free(in);
 }
 
 /* ------------------------------------------------------------ main */
-static void enum_streams(char *s, int pos, int len, const char *family, int modes, int *bad)
+static vx_bfs c15_bfs;
+static c15_snap_t c15_live;
+/* The last level of the search is not stored: every state found at the last but one depth is expanded on the spot (each
+ * enabled character applied and judged, the state put back). The transitions are exactly those of a search one level
+ * deeper; the states they lead to are counted (distinct hashes) but cost no snapshot. */
+static int c15_probe_depth; static void *c15_probe_img; static vx_set c15_frontier; static uint64_t c15_n_probe_transitions, c15_n_probe_disabled;
+static void c15_probe_fail(int op, const char *clause, const char *why)
 {
-	if (pos == len) { if (*bad < 6) *bad += try_stream(s, len, family, modes); return; }
-	for (int k = 0; k < NALPHA; k++) {
-		if (pos == len - 1 && alphabet[k] != '\n') continue;	/* streams end with a newline so that the last line is observed */
-		s[pos] = alphabet[k];
-		enum_streams(s, pos + 1, len, family, modes, bad);
+	vx_bfs *b = &c15_bfs; vx_sb hist = {0}, rep = {0}, sig = {0};
+	vx_bfs_history(b, &hist, &rep);			/* the history of the state just found ... */
+	vx_sb_printf(&hist, "; "); b->describe(op, &hist);	/* ... and the character applied to it */
+	while (rep.n && rep.s[rep.n - 1] == '\n') rep.s[--rep.n] = 0;
+	vx_sb_printf(&rep, " %d\n", op);
+	vx_sb_printf(&sig, "%s|%s|%s", clause, b->name ? b->name : "", hist.s);
+	vx_violation(sig.s, rep.s, "%s: %s -- after history [%s]", clause, why, hist.s);
+	free(hist.s); free(rep.s); free(sig.s);
+}
+static void c15_on_new(int depth)
+{
+	if (depth != c15_probe_depth || vx_too_many_violations() || vx_hangs_seen >= 3) return;
+	c15_snap_t keep; c15_stA_save(&keep); vx_lib_save(c15_probe_img);
+	for (int op = 0; op < c15_alpha->n; op++) {
+		if (!c15_opA_enabled(op)) { c15_n_probe_disabled++; continue; }
+		const char *clause = "";
+		c15_n_chars[c15_alpha == &c15_alphas[1]][op]++; c15_n_probe_transitions++;
+		const char *why = c15_step(c15_alpha->chars[op], &clause);
+		if (why) c15_probe_fail(op, clause, why);
+		else { vx_hasher h; vx_h_init(&h); c15_stA_canon(&h); vx_lib_hash(&h); vx_set_add(&c15_frontier, vx_h_done(&h)); }
+		c15_stA_load(&keep); vx_lib_restore(c15_probe_img);
+		if (vx_too_many_violations() || vx_hangs_seen >= 3) break;
 	}
+}
+static void c15_run_bfs(int alpha, int fill, int depth, const char *replay)
+{
+	static char names[24][16]; static int nn;
+	char *nm = names[nn++ % 24];
+	snprintf(nm, 16, "%s%d", alpha ? "case" : "fill", fill);
+	c15_alpha = &c15_alphas[alpha];
+	c15_fresh();
+	if (!c15_prefill(fill, nm)) return;
+	vx_bfs *b = &c15_bfs;
+	memset(b, 0, sizeof(*b));
+	b->size = sizeof(c15_snap_t); b->nops = c15_alpha->n; b->enabled = c15_opA_enabled; b->apply = c15_opA_apply; b->canon = c15_stA_canon;
+	b->describe = c15_opA_describe; b->save = c15_stA_save; b->load = c15_stA_load; b->live = &c15_live;
+	b->name = nm;
+	if (replay) { vx_bfs_replay(b, replay); return; }
+	b->max_depth = depth - 1; b->on_new = c15_on_new; c15_probe_depth = depth - 1;
+	if (!c15_probe_img) c15_probe_img = malloc(vx_lib_size());
+	vx_set_init(&c15_frontier, 16);
+	uint64_t p0 = c15_n_probe_transitions;
+	vx_bfs_run(b);
+	int capped = b->capped || vx_too_many_violations() || vx_hangs_seen >= 3;
+	vx_count("states", b->states); vx_count("transitions", b->transitions + (c15_n_probe_transitions - p0)); vx_count("traces", b->transitions + (c15_n_probe_transitions - p0));
+	vx_count("states_of_the_last_level_hashed_not_stored", c15_frontier.n);
+	vx_count("scope_guard_disabled_ops", b->disabled + c15_n_probe_disabled); c15_n_probe_disabled = 0;
+	vx_and("exhaustive", !capped);
+	c15_n_fam[9]++;
+	vx_sample("part A %s (%s alphabet): BFS depth %d + last level expanded on the spot = all histories of %d characters; %llu states stored, %llu last-level states, %llu transitions", nm, alpha ? "case/boundary" : "editing",
+		  b->depth_done, b->depth_done + 1, (unsigned long long)b->states, (unsigned long long)c15_frontier.n, (unsigned long long)(b->transitions + c15_n_probe_transitions - p0));
+	vx_set_free(&c15_frontier);
+	vx_bfs_free(b);
 }
 
 int main(int argc, char **argv)
@@ -428,21 +1110,40 @@ int main(int argc, char **argv)
 	vx_init(argc, argv);
 	vx_install_handlers();
 	vx_watchdog(3.0);
-	vx_set_init(&distinct_obs, 16);
-	sink = fmemopen(sinkbuf, sizeof(sinkbuf), "w");
+	vx_set_init(&c15_distinct_obs, 16);
+	if (!vx_lib_size()) { fprintf(stderr, "c15: the part must be built with lib= (library image missing)\n"); return 3; }
+	c15_new_sink();
 	/* the console object sits between a canary block and a guard page */
-	uint8_t *area = vx_guard_alloc(sizeof(console_t) + 64, 1);
-	con_canary_lo = area; memset(area, 0xA5, 64); CON = (console_t *)(area + 64); con_canary_hi = area;
-	memcpy(pristine_table, cmd_table, sizeof(cmd_table));
-	table_reset(); console_register(&cmd_a); console_register(&cmd_ab); console_register(&cmd_b); console_register(&cmd_l2); console_register(&cmd_l1);
-	const console_cmd_t *work_table[32]; memcpy(work_table, cmd_table, sizeof(work_table));
-	(void)dummy;
+	uint8_t *area = vx_guard_alloc(sizeof(console_t) + (size_t)c15_canary_len, 1);
+	c15_canary = area; memset(area, 0xA5, (size_t)c15_canary_len); c15_con = (console_t *)(area + c15_canary_len);
+	/* the built-ins: the named entries of the table as the library ships it */
+	{
+		const console_cmd_t **tab = c15_shim_table(); int slots = (int)c15_shim_table_slots();
+		for (int i = 0; i < slots && tab[i] && c15_nbuiltin < C15_MAXBUILTIN; i++) if (tab[i]->name) {
+			c15_builtin_fn[c15_nbuiltin] = (void *)(uintptr_t)tab[i]->fn; c15_builtin_name[c15_nbuiltin] = tab[i]->name; c15_nbuiltin++;
+		}
+	}
+	c15_img_work = malloc(vx_lib_size()); c15_img_tmp = malloc(vx_lib_size()); c15_img_tmp2 = malloc(vx_lib_size());
+	if (!c15_img_work || !c15_img_tmp || !c15_img_tmp2) return 3;
+	{
+		/* as many of the harness commands as the table has free slots for (all eight in a table of 11 slots or more) */
+		const console_cmd_t **tab = c15_shim_table(); int slots = (int)c15_shim_table_slots(), used = 0, nreg = 0;
+		for (int i = 0; i < slots; i++) if (tab[i]) used++;
+		for (int i = 0; i < C15_NCMD && used + nreg < slots; i++) {
+			if (console_register(&c15_cmds[c15_reg_order[i]]) != 0) {
+				vx_violation("register-refused|registration|harness commands", "part=C\ncase=harness commands\n", "register-refused: console_register failed for '%s' although %d of the table's %d slots are free", c15_cmdname[c15_reg_order[i]], slots - used - nreg, slots);
+				vx_finish(); return 0;
+			}
+			c15_cmd_registered[c15_reg_order[i]] = 1; nreg++;
+		}
+		if (nreg < C15_NCMD) { vx_note("the command table has room for only %d of the 8 harness commands: lines naming the others are expected to run nothing", nreg); vx_and("exhaustive", 0); }
+	}
+	vx_lib_save(c15_img_work);
 
-	vx_bfs b = { .size = sizeof(snapA_t), .nops = NALPHA, .enabled = opA_enabled, .apply = opA_apply, .canon = stA_canon,
-		     .describe = opA_describe, .save = stA_save, .load = stA_load };
-	static snapA_t live; b.live = &live;
-	static const int fills[] = { 0, 70, 74, 76, 77, 78, 79 };
+	const int fills[7] = { 0, C15_CAP - 9, C15_CAP - 5, C15_CAP - 3, C15_CAP - 2, C15_CAP - 1, C15_CAP };
+	const int fills2[3] = { 0, C15_CAP - 4, C15_CAP - 1 };
 	int depthA = vx_thorough() ? 9 : 7, depthFill = vx_thorough() ? 7 : 5;
+	int depthA2 = vx_thorough() ? 8 : 7, depthFill2 = vx_thorough() ? 6 : 4;
 	int lenB = vx_thorough() ? 6 : 5;
 
 	char *rp = vx_read_replay();
@@ -450,111 +1151,77 @@ int main(int argc, char **argv)
 		const char *part = vx_replay_field(rp, "part");
 		if (part && part[0] == 'B') {
 			int mode = atoi(vx_replay_field(rp, "mode")); char fam[64]; snprintf(fam, sizeof(fam), "%s", vx_replay_field(rp, "family"));
-			const char *hx = strstr(rp, "stream="); static char s[1400]; int n = 0;
+			const char *hx = strstr(rp, "stream="); static char s[C15_MAXSTREAM + 8]; int n = 0;
 			if (hx) hx += 7;
-			for (; hx && hx[2 * n] > ' ' && hx[2 * n + 1] > ' ' && n < 1390; n++) { unsigned v; sscanf(hx + 2 * n, "%2x", &v); s[n] = (char)v; }
+			for (; hx && hx[2 * n] > ' ' && hx[2 * n + 1] > ' ' && n < C15_MAXSTREAM; n++) { unsigned v; sscanf(hx + 2 * n, "%2x", &v); s[n] = (char)v; }
 			s[n] = 0;
-			memcpy(cmd_table, work_table, sizeof(work_table));
-			try_stream(s, n, fam, 1 << mode);
+			c15_try_stream(s, n, fam, 1 << mode);
+		} else if (part && part[0] == 'E') {
+			int idx[3], n = 0; const char *q = vx_replay_field(rp, "seq");
+			while (q && *q && n < 3) { idx[n] = atoi(q) % C15_NPOOL; n++; q = strchr(q, ','); if (q) q++; }
+			if (n) c15_evalseq_case(idx, n);
 		} else if (part && part[0] == 'C') {
 			char want[96]; snprintf(want, sizeof(want), "%s", vx_replay_field(rp, "case"));
-			for (int n = 1; n <= 4; n++) { int o[4]; for (o[0] = 0; o[0] < 4; o[0]++) for (o[1] = 0; o[1] < (n > 1 ? 4 : 1); o[1]++) for (o[2] = 0; o[2] < (n > 2 ? 4 : 1); o[2]++) for (o[3] = 0; o[3] < (n > 3 ? 4 : 1); o[3]++) {
-				int dup = 0; for (int i = 0; i < n; i++) for (int j = 0; j < i; j++) dup |= o[i] == o[j];
-				if (!dup) part_c_case(o, n, want); } }
-			part_c_capacity(want);
+			c15_part_c_orders(want);
+			c15_part_c_capacity(0, want); c15_part_c_capacity(1, want);
 		} else {
-			const char *cn = vx_replay_field(rp, "config"); int f = cn ? atoi(cn + 4) : 0;
-			memcpy(cmd_table, work_table, sizeof(work_table));
-			console_fresh(); prefill(f); b.name = cn;
-			vx_bfs_replay(&b, rp);
+			const char *cn = vx_replay_field(rp, "config");
+			int alpha = cn && !strncmp(cn, "case", 4), f = cn ? atoi(cn + 4) : 0;
+			c15_run_bfs(alpha, f, 0, rp);
 		}
 		vx_finish();
 		return 0;
 	}
 
-	/* partitions: 0..6 part A start states, 7..15 part B (first character), 16 part C, 17.. long-line families */
-	for (unsigned i = 0; i < sizeof(fills) / sizeof(fills[0]); i++) {
-		if (!vx_mine(i)) continue;
-		static char names[8][16]; snprintf(names[i], 16, "fill%d", fills[i]);
-		memcpy(cmd_table, work_table, sizeof(work_table));
-		console_fresh(); prefill(fills[i]);
-		b.name = names[i]; b.max_depth = fills[i] ? depthFill : depthA;
-		vx_bfs_run(&b);
-		vx_count("states", b.states); vx_count("transitions", b.transitions); vx_count("traces", b.transitions);
-		vx_count("scope_guard_disabled_ops", b.disabled);
-		vx_and("exhaustive", !b.capped);
-		vx_sample("part A %s: BFS depth %d, %llu states, %llu transitions", names[i], b.depth_done, (unsigned long long)b.states, (unsigned long long)b.transitions);
-		vx_bfs_free(&b);
-	}
-	for (int k = 0; k < NALPHA; k++) {
-		if (!vx_mine((uint64_t)(7 + k))) continue;
-		memcpy(cmd_table, work_table, sizeof(work_table));
-		char s[16]; int bad = 0;
-		for (int len = 1; len <= lenB; len++) {
-			if (len == 1) { if (alphabet[k] == '\n') { s[0] = '\n'; try_stream(s, 1, "short", 14); } continue; }
-			s[0] = alphabet[k];
-			enum_streams(s, 1, len, "short", 14, &bad);	/* modes 1,2,3 (mode 0 is part A) */
-			if (vx_deadline_passed()) { vx_and("exhaustive", 0); break; }
+	/* work units: part A start states; part B families in slices; part E; part C */
+	uint64_t unit = 0;
+	for (int i = 0; i < 7; i++) if (vx_mine(unit++)) c15_run_bfs(0, fills[i], fills[i] ? depthFill : depthA, NULL);
+	for (int i = 0; i < 3; i++) if (vx_mine(unit++)) c15_run_bfs(1, fills2[i], fills2[i] ? depthFill2 : depthA2, NULL);
+	for (int k = 0; k < c15_alphas[0].n; k++) {
+		if (!vx_mine(unit++)) continue;
+		char s[16]; int bad = 0; char first = c15_alphas[0].chars[k];
+		for (int len = 1; len <= lenB && !c15_should_stop(); len++) {
+			if (len == 1) { if (first == '\n') { s[0] = '\n'; c15_n_fam[0]++; c15_try_stream(s, 1, "short", 14); } continue; }
+			s[0] = first;
+			uint64_t before = c15_n_streams;
+			c15_enum_streams(s, 1, len, 14, &bad);	/* modes 1,2,3 (mode 0 is part A) */
+			c15_n_fam[0] += c15_n_streams - before;
 		}
 	}
-	if (vx_mine(16)) {
-		memcpy(cmd_table, work_table, sizeof(work_table));
-		for (int n = 1; n <= 4; n++) { int o[4]; for (o[0] = 0; o[0] < 4; o[0]++) for (o[1] = 0; o[1] < (n > 1 ? 4 : 1); o[1]++) for (o[2] = 0; o[2] < (n > 2 ? 4 : 1); o[2]++) for (o[3] = 0; o[3] < (n > 3 ? 4 : 1); o[3]++) {
-			int dup = 0; for (int i = 0; i < n; i++) for (int j = 0; j < i; j++) dup |= o[i] == o[j];
-			if (!dup) part_c_case(o, n, NULL); } }
-		part_c_capacity(NULL);
-		table_reset();
-	}
-	/* long streams: lines of 1..3 words around the ring size (15) and the line limit (79), several lines per stream, every delivery */
-	if (vx_mine(17)) {
-		memcpy(cmd_table, work_table, sizeof(work_table));
-		static char s[400];
-		int bad = 0;
-		for (int total = 10; total <= 90 && bad < 6; total++) for (int variant = 0; variant < 4 && bad < 6; variant++) {
-			/* "ab" + blanks/words up to `total` characters, newline, then a second short line */
-			int n = 0;
-			s[n++] = 'a'; if (variant & 1) s[n++] = 'b';
-			while (n < total) { s[n] = (n % 5 == 2) ? ' ' : ((variant & 2) ? 'b' : 'a'); n++; }
-			if (total < 79) s[n++] = '\n'; else { s[n++] = 'a'; s[n++] = 3; }	/* past the limit: the overflowing character, then ^C */
-			s[n++] = 'b'; s[n++] = ' '; s[n++] = 'a'; s[n++] = '\n';
-			s[n] = 0;
-			bad += try_stream(s, n, "long", 15);
+	if (vx_mine(unit++)) { c15_part_c_orders(NULL); c15_part_c_capacity(0, NULL); c15_part_c_capacity(1, NULL); }
+	for (int sl = 0; sl < 4; sl++) if (vx_mine(unit++)) c15_family_long(sl, 4);
+	for (int sl = 0; sl < 2; sl++) if (vx_mine(unit++)) c15_family_unknown(sl, 2);
+	if (vx_mine(unit++)) { c15_family_names(); c15_family_printable(); c15_family_script(); }
+	/* tokens: quick 1..5 tokens over all six kinds and 6 tokens over three; thorough 1..6 over six and 7 over three */
+	for (int first = 0; first < 3; first++) {
+		if (vx_mine(unit++)) c15_family_tokens(first, vx_thorough() ? 6 : 5, 6);
+		if (vx_mine(unit++)) {
+			/* one more token, kinds a / 'a' / "b" only: the enumeration of the smaller counts is repeated, counted again */
+			c15_family_tokens(first, vx_thorough() ? 7 : 6, 3);
 		}
 	}
-	/* names around the long registered commands: exact, one shorter, one longer, differing late */
-	if (vx_mine(17)) {
-		memcpy(cmd_table, work_table, sizeof(work_table));
-		static const char *near[] = { "abababab\n", "ababababa\n", "abababa\n", "ababababb\n", "ababababab\n", "abababab a\n", "ababababa 'b b'\n",
-					      "abababaa\n", "ababababaa b\n", "abababab\nababababa\nababababb\na\n" };
-		int bad = 0;
-		for (unsigned i = 0; i < sizeof(near) / sizeof(near[0]) && bad < 6; i++) bad += try_stream(near[i], (int)strlen(near[i]), "names", 15);
-	}
-	/* scripts: many short lines, total length around the sizes a narrow cursor would wrap at */
-	if (vx_mine(17)) {
-		memcpy(cmd_table, work_table, sizeof(work_table));
-		static char s[1400];
-		static const int totals[] = { 120, 254, 255, 256, 257, 258, 300, 511, 512, 513, 1000 };
-		int bad = 0;
-		for (unsigned ti = 0; ti < sizeof(totals) / sizeof(totals[0]) && bad < 6; ti++) {
-			int n = 0, line = 0;
-			while (n < totals[ti]) {
-				const char *l = (line % 3 == 0) ? "ab a\n" : (line % 3 == 1) ? "b\n" : "a bb ab\n";
-				int ll = (int)strlen(l);
-				if (n + ll > totals[ti]) { while (n < totals[ti] - 1) s[n++] = ' '; s[n++] = '\n'; break; }
-				memcpy(s + n, l, (size_t)ll); n += ll; line++;
-			}
-			s[n] = 0;
-			bad += try_stream(s, n, "script", 13);	/* console_process, putchar bursts, console_eval */
-		}
-	}
-	vx_count("evaluations", n_streams + n_reg_orders); vx_count("distinct", distinct_obs.n);
-	vx_count("streams_delivered_other_than_console_process", n_streams); vx_count("deliveries_putchar", n_deliveries[1]); vx_count("deliveries_eval", n_deliveries[2]);
-	vx_count("lines_compared", n_lines); vx_count("lines_unspecified_by_the_statement", n_lines_unspecified); vx_count("lines_unknown_or_empty", n_lines_unknown);
-	vx_count("lines_cmd_a", n_lines_cmd[0]); vx_count("lines_cmd_ab", n_lines_cmd[1]); vx_count("lines_cmd_b", n_lines_cmd[2]);
-	vx_count("lines_cmd_abababab", n_lines_cmd[3]); vx_count("lines_cmd_ababababa", n_lines_cmd[4]);
-	vx_count("lines_completed_by_a_full_buffer", n_fill_lines);
-	vx_count("registration_cases", n_reg_orders); vx_count("registration_lookups", n_reg_lookups); vx_count("eval_invocations", n_eval_invocations);
-	for (int k = 0; k < NALPHA; k++) { char nm[32]; snprintf(nm, sizeof(nm), "chars_%s", alphaname[k]); vx_count(nm, n_chars[k]); }
+	for (int sl = 0; sl < 3; sl++) if (vx_mine(unit++)) c15_family_evalseq(sl, 3);
+
+	vx_count("evaluations", c15_n_streams + c15_n_reg_orders); vx_count("distinct", c15_distinct_obs.n);
+	vx_count("streams", c15_n_streams);
+	for (int m = 0; m < 4; m++) { char nm[64]; snprintf(nm, sizeof(nm), "deliveries_%s", c15_modename[m]); vx_count(nm, c15_n_deliveries[m]); }
+	for (int f = 0; f < 9; f++) { char nm[64]; snprintf(nm, sizeof(nm), "cases_family_%s", c15_famname[f]); vx_count(nm, c15_n_fam[f]); }
+	vx_count("lines_compared", c15_n_lines); vx_count("lines_unspecified_by_the_statement", c15_n_lines_unspecified); vx_count("lines_unknown_or_empty", c15_n_lines_unknown);
+	vx_count("lines_naming_a_builtin", c15_n_lines_builtin);
+	for (int k = 0; k < C15_NCMD; k++) { char nm[64]; snprintf(nm, sizeof(nm), "lines_cmd_%s", c15_cmdname[k]); vx_count(nm, c15_n_lines_cmd[k]); }
+	vx_count("lines_shorter_than_18", c15_n_lines_by_len[0]); vx_count("lines_18_to_69", c15_n_lines_by_len[1]);
+	vx_count("lines_70_to_capacity_minus_1", c15_n_lines_by_len[2]); vx_count("lines_of_capacity", c15_n_lines_by_len[3]);
+	vx_count("lines_4_tokens_with_quotes_content_compared", c15_n_lines_ge4tok_quoted);
+	vx_count("lines_completed_by_a_full_buffer", c15_n_fill_lines); vx_count("full_lines_dispatched_with_their_last_character", c15_n_fill_lines_at_once);
+	vx_count("steps_with_poison_behind_the_line_buffer", c15_n_poison_checks);
+	vx_count("builtin_command_entries_seen", c15_builtin_entries);
+	vx_count("registration_cases", c15_n_reg_orders); vx_count("registration_lookups", c15_n_reg_lookups);
+	vx_count("eval_invocations", c15_n_eval_invocations); vx_count("eval_calls_in_sequences", c15_n_evals); vx_count("eval_calls_with_the_empty_string", c15_n_empty_evals);
+	vx_count("generator_scope_guard_skips", c15_n_guard_skips); vx_count("console_output_bytes", c15_out_bytes);
+	vx_max("line_buffer_bytes", (uint64_t)C15_LINESZ); vx_max("scratch_union_bytes", (uint64_t)C15_SCRATCHSZ); vx_max("library_image_bytes", (uint64_t)vx_lib_size());
+	for (int a = 0; a < 2; a++) for (int k = 0; k < 9; k++) { char nm[48]; snprintf(nm, sizeof(nm), "chars_%s_%s", a ? "case" : "edit", c15_alphas[a].names[k]); vx_count(nm, c15_n_chars[a][k]); }
 	vx_finish();
 	return 0;
 }
+
+#endif /* C15_SHIM */
